@@ -167,3 +167,2011 @@ Proof.
   unfold leafrec_eqb. rewrite !andb_true_iff. intros [[[H1 _] _] H4].
   apply Z.eqb_eq in H1. split; [assumption|now apply tv_eqb_eq].
 Qed.
+
+(** * The relay invariant *)
+
+(** the specification state in the order the cache works in (updates, then
+    deletes of older leaves), with timestamps; a function, used pointwise *)
+Definition tfun := path -> option (Z * tv).
+
+Definition tfset (f : tfun) (k : path) (ts : Z) (v : tv) : tfun :=
+  fun k' => if path_eqb k' k then Some (ts, v) else f k'.
+
+Definition tfdel (f : tfun) (d : path) (ts : Z) : tfun :=
+  fun k' => match f k' with
+            | Some (t0, v) => if qmatch d k' && (t0 <? ts) then None else Some (t0, v)
+            | None => None
+            end.
+
+Definition decode (o : option (Z * tv)) : option scalar :=
+  match o with Some (_, v) => to_scalar v | None => None end.
+
+Definition strs_of (g : gpath) : path := to_strings_gp g false.
+
+(** index path of a stored record below its target *)
+Definition idx (r : leafrec) : path :=
+  g_origin (lr_prefix r) :: strs_of (lr_prefix r) ++ strs_of (lr_path r).
+
+Definition del_full (d : delrec) : path :=
+  (if str_nonempty (d_target d) then [d_target d] else [])
+  ++ (if str_nonempty (d_origin d) then [d_origin d] else [])
+  ++ to_strings_gp (d_path d) false.
+
+Definition concerns (H : heap) (p : path) (i : qitem) : bool :=
+  match i with
+  | QLeaf g => match hget H g with Some r => path_eqb (full_path r) p | None => false end
+  | QDel d => path_eqb (del_full d) p
+  | QSync => false
+  end.
+
+Fixpoint last_conc (H : heap) (p : path) (q : list qitem) : option qitem :=
+  match q with
+  | [] => None
+  | i :: q' =>
+      match last_conc H p q' with
+      | Some j => Some j
+      | None => if concerns H p i then Some i else None
+      end
+  end.
+
+(** what the client will hold at [p] once the queue is delivered *)
+Definition final (H : heap) (c : tree scalar) (q : list qitem) (p : path) : option scalar :=
+  match last_conc H p q with
+  | Some (QLeaf g) => match hget H g with Some r => to_scalar (lr_val r) | None => None end
+  | Some _ => None
+  | None => lookup c p
+  end.
+
+Definition no_mixed (pre p : gpath) : Prop :=
+  (g_elem pre <> [] -> g_elem p = [] -> g_element p = []) /\
+  (g_elem p <> [] -> g_elem pre = [] -> g_element pre = []).
+
+Lemma last_conc_app H p q1 q2 :
+  last_conc H p (q1 ++ q2) =
+  match last_conc H p q2 with Some j => Some j | None => last_conc H p q1 end.
+Proof.
+  induction q1 as [|i q1 IH]; cbn; [now destruct (last_conc H p q2)|].
+  rewrite IH. destruct (last_conc H p q2); reflexivity.
+Qed.
+
+Lemma last_conc_In H p q i : last_conc H p q = Some i -> In i q /\ concerns H p i = true.
+Proof.
+  induction q as [|j q IH]; cbn; [discriminate|].
+  destruct (last_conc H p q) as [x|].
+  - intros E; inversion E; subst. destruct (IH eq_refl); auto.
+  - destruct (concerns H p j) eqn:Hc; [|discriminate]. intros E; inversion E; subst; auto.
+Qed.
+
+Lemma last_conc_None H p q : last_conc H p q = None <-> forall i, In i q -> concerns H p i = false.
+Proof.
+  induction q as [|j q IH]; cbn; [tauto|].
+  destruct (last_conc H p q) as [x|] eqn:E.
+  - split; [discriminate|]. intros Hall. apply last_conc_In in E as [Hin Hc].
+    rewrite Hall in Hc by auto. discriminate.
+  - destruct (concerns H p j) eqn:Hc.
+    + split; [discriminate|]. intros Hall. rewrite Hall in Hc by auto. discriminate.
+    + split; [|reflexivity]. intros _ i [<-|Hin]; [assumption|]. now apply IH.
+Qed.
+
+Lemma last_conc_ext H H' p q :
+  (forall i, In i q -> concerns H' p i = concerns H p i) -> last_conc H' p q = last_conc H p q.
+Proof.
+  induction q as [|j q IH]; cbn; intros Hc; [reflexivity|].
+  rewrite IH by (intros; apply Hc; auto). rewrite Hc by auto. reflexivity.
+Qed.
+
+Definition sub_none (o : option subscriber) : bool := match o with None => true | Some _ => false end.
+
+Lemma feed_leaf_none o g p : sub_none (feed_leaf o g p) = sub_none o.
+Proof. destruct o as [sb|]; cbn; [|reflexivity]. now destruct (mmatch (sb_query sb) p). Qed.
+
+Lemma feed_del_none o d : sub_none (feed_del o d) = sub_none o.
+Proof. destruct o as [sb|]; cbn; [|reflexivity]. now destruct (mmatch _ _). Qed.
+
+Lemma cache_update_one_none w r : sub_none (w_sub (cache_update_one w r)) = sub_none (w_sub w).
+Proof.
+  unfold cache_update_one. destruct (w_fault w); [reflexivity|].
+  destruct (join_prefix_and_path _ _) as [[|h tl]|]; try reflexivity.
+  destruct (String.eqb h meta_root); [reflexivity|].
+  destruct (get (w_tree w) (h :: tl)) as [[g|cs]|]; try reflexivity.
+  - destruct (hget (w_heap w) g) as [old|]; [|reflexivity].
+    destruct (lr_ts r <? lr_ts old); [reflexivity|].
+    destruct ((lr_ts r =? lr_ts old) && leafrec_eqb old r); [reflexivity|].
+    destruct (tv_equal (lr_val old) (lr_val r)); cbn [w_sub]; [reflexivity|apply feed_leaf_none].
+  - destruct (add (w_tree w) (h :: tl) (w_gen w)); cbn [w_sub]; [apply feed_leaf_none|reflexivity].
+Qed.
+
+Lemma cache_delete_one_none ts pre w d : sub_none (w_sub (cache_delete_one ts pre w d)) = sub_none (w_sub w).
+Proof.
+  unfold cache_delete_one. destruct (w_fault w); [reflexivity|].
+  destruct (join_prefix_and_path _ _) as [[|h tl]|]; try reflexivity.
+  destruct (String.eqb h meta_root); [reflexivity|]. cbn [w_sub].
+  generalize (snd (delete_cond (w_tree w) (h :: tl)
+     (fun g => match hget (w_heap w) g with Some r => lr_ts r <? ts | None => false end))).
+  intros l. generalize (w_sub w). induction l as [|pg l IH]; intros o; cbn [fold_left]; [reflexivity|].
+  rewrite IH. destruct (hget (w_heap w) (snd pg)); [apply feed_del_none|reflexivity].
+Qed.
+
+Lemma ingest_sub_none st n it : sub_none (ps_sub (ingest st n it)) = sub_none (ps_sub st).
+Proof.
+  unfold ingest. destruct (ps_fault st); [reflexivity|]. destruct it as [|nt]; [reflexivity|].
+  destruct (n_prefix (stamp n nt)) as [pre|]; [|reflexivity].
+  destruct (assoc n (ps_cache st)) as [t|]; [|reflexivity]. cbn [ps_sub].
+  unfold target_gnmi_update.
+  set (w0 := {| w_tree := t; w_heap := ps_heap st; w_gen := ps_gen st; w_sub := ps_sub st; w_fault := None |}).
+  change (ps_sub st) with (w_sub w0). generalize w0. clear w0. intros w0.
+  assert (Hu : forall us w, sub_none (w_sub (fold_left (fun w u => cache_update_one w
+                 {| lr_ts := n_ts (stamp n nt); lr_prefix := pre; lr_path := fst u; lr_val := snd u |}) us w)) = sub_none (w_sub w)).
+  { induction us as [|u us IH]; intros w; cbn [fold_left]; [reflexivity|]. now rewrite IH, cache_update_one_none. }
+  assert (Hd : forall ds w, sub_none (w_sub (fold_left (cache_delete_one (n_ts (stamp n nt)) pre) ds w)) = sub_none (w_sub w)).
+  { induction ds as [|d ds IH]; intros w; cbn [fold_left]; [reflexivity|]. now rewrite IH, cache_delete_one_none. }
+  now rewrite Hd, Hu.
+Qed.
+
+Lemma path_eqb_sym_b p q : path_eqb p q = path_eqb q p.
+Proof.
+  destruct (path_eqb_spec p q) as [->|Hn]; [now rewrite path_eqb_refl|].
+  destruct (path_eqb_spec q p); congruence.
+Qed.
+
+Section Relay.
+Variable name : string.
+Variable Keys : path -> Prop.          (* the target's schema: origin :: path strings *)
+Variable Vals : tv -> Prop.            (* the values the target sends *)
+Variable Q Qr : path.                  (* the registered query *)
+Hypothesis Keys_pf : forall a b, Keys a -> Keys b -> strict_prefix a b = false.
+Hypothesis Keys_gf : forall a, Keys a -> glob_free a = true.
+Hypothesis Vals_dec : forall v, Vals v -> to_scalar v <> None.
+Hypothesis Vals_canon : forall a b, Vals a -> Vals b -> tv_equal a b = true -> to_scalar a = to_scalar b.
+Hypothesis Q_eq : Q = name :: Qr.
+Hypothesis Q_gf : glob_free Q = true.
+Hypothesis Q_above : forall k, Keys k -> strict_prefix (name :: k) Q = false.
+Hypothesis name_ne : name <> "".
+
+Lemma name_ng : is_glob name = false.
+Proof. rewrite Q_eq in Q_gf. cbn in Q_gf. apply andb_true_iff in Q_gf as [H _]. now apply negb_true_iff. Qed.
+
+Definition under (k : path) : bool := is_prefix Q (name :: k).
+
+Record rec_ok (r : leafrec) : Prop := {
+  ro_target : g_target (lr_prefix r) = name;
+  ro_origin : g_origin (lr_prefix r) <> "";
+  ro_meta : g_origin (lr_prefix r) <> meta_root;
+  ro_key : Keys (idx r);
+  ro_val : Vals (lr_val r);
+  ro_mixed : no_mixed (lr_prefix r) (lr_path r)
+}.
+
+Lemma full_path_ok r : rec_ok r -> full_path r = name :: idx r.
+Proof.
+  intros [Ht Ho _ _ _ _]. unfold full_path, idx, strs_of. unfold to_strings_gp at 1.
+  rewrite Ht, (str_nonempty_true _ name_ne), (str_nonempty_true _ Ho). cbn.
+  reflexivity.
+Qed.
+
+Lemma join_ok r : rec_ok r -> join_prefix_and_path (lr_prefix r) (lr_path r) = Some (idx r).
+Proof.
+  intros Hr. unfold join_prefix_and_path. change (to_strings_gp (lr_prefix r) true ++ to_strings_gp (lr_path r) false)
+    with (full_path r). now rewrite (full_path_ok r Hr).
+Qed.
+
+Lemma mmatch_under k : Keys k -> mmatch Q (name :: k) = under k.
+Proof.
+  intros Hk. unfold under. destruct (is_prefix Q (name :: k)) eqn:E; [now apply mmatch_prefix|].
+  destruct (mmatch Q (name :: k)) eqn:Hm; [|reflexivity].
+  apply mmatch_glob_free in Hm; [|assumption|].
+  - destruct Hm as [Hm|Hm]; [congruence|].
+    apply is_prefix_strict_or_eq in Hm as [Hm|Hm].
+    + rewrite <- Hm, is_prefix_refl in E. discriminate.
+    + rewrite Q_above in Hm by assumption. discriminate.
+  - cbn. rewrite name_ng. cbn. now apply Keys_gf.
+Qed.
+
+Definition item_ok (H : heap) (i : qitem) : Prop :=
+  match i with
+  | QLeaf g => exists r, hget H g = Some r /\ rec_ok r /\ under (idx r) = true
+  | QDel d => exists k, del_full d = name :: k /\ Keys k /\ under k = true
+  | QSync => True
+  end.
+
+Record sub_inv (T : tree nat) (H : heap) (TF : tfun) (sb : subscriber) : Prop := {
+  si_query : sb_query sb = Q;
+  si_err : cl_err (sb_client sb) = false;
+  si_wf : wf_tree (cl_tree (sb_client sb));
+  si_stored : forall p s, lookup (cl_tree (sb_client sb)) p = Some s -> exists k, p = name :: k /\ Keys k;
+  si_items : forall i, In i (sb_queue sb) -> item_ok H i;
+  si_final : forall k, Keys k ->
+      final H (cl_tree (sb_client sb)) (sb_queue sb) (name :: k) = if under k then decode (TF k) else None;
+  si_live : forall k g, lookup T k = Some g ->
+      match last_conc H (name :: k) (sb_queue sb) with None => True | Some i => i = QLeaf g end
+}.
+
+Record ninv (T : tree nat) (H : heap) (gen : nat) (sub : option subscriber) (TF : tfun) : Prop := {
+  ni_wf : wf_tree T;
+  ni_tree : forall k g, lookup T k = Some g ->
+      (g < gen)%nat /\ exists r, hget H g = Some r /\ rec_ok r /\ idx r = k /\ TF k = Some (lr_ts r, lr_val r);
+  ni_spec : forall k x, TF k = Some x -> exists g, lookup T k = Some g;
+  ni_heap : forall g r, hget H g = Some r -> (g < gen)%nat;
+  ni_sub : match sub with None => True | Some sb => sub_inv T H TF sb end
+}.
+
+Lemma ninv_ext T H gen sub TF TF' :
+  (forall k, TF' k = TF k) -> ninv T H gen sub TF -> ninv T H gen sub TF'.
+Proof.
+  intros He [H1 H2 H3 H4 H5]. constructor; auto.
+  - intros k g Hl. destruct (H2 k g Hl) as (? & r & ? & ? & ? & ?). split; [assumption|].
+    exists r. rewrite He. auto.
+  - intros k x. rewrite He. apply H3.
+  - destruct sub as [sb|]; [|exact I]. destruct H5. constructor; auto.
+    intros k Hk. rewrite He. auto.
+Qed.
+
+Lemma hget_hset H g r g' : hget (hset H g r) g' = if Nat.eqb g' g then Some r else hget H g'.
+Proof. reflexivity. Qed.
+
+Lemma concerns_hset H g r old p i :
+  hget H g = Some old -> full_path old = full_path r ->
+  concerns (hset H g r) p i = concerns H p i.
+Proof.
+  intros Ho Hp. destruct i as [g'|d|]; cbn [concerns]; try reflexivity.
+  rewrite hget_hset. destruct (Nat.eqb_spec g' g) as [->|Hn]; [|reflexivity]. now rewrite Ho, Hp.
+Qed.
+
+Lemma concerns_hset_fresh H g r p i :
+  hget H g = None -> (forall g', i = QLeaf g' -> hget H g' <> None) ->
+  concerns (hset H g r) p i = concerns H p i.
+Proof.
+  intros Ho Hi. destruct i as [g'|d|]; cbn [concerns]; try reflexivity.
+  rewrite hget_hset. destruct (Nat.eqb_spec g' g) as [->|Hn]; [|reflexivity]. exfalso. now apply (Hi g eq_refl).
+Qed.
+
+Lemma final_QLeaf_Some H c q k g :
+  last_conc H (name :: k) q = Some (QLeaf g) -> (forall i, In i q -> item_ok H i) ->
+  exists r, hget H g = Some r /\ rec_ok r /\ idx r = k /\
+            final H c q (name :: k) = to_scalar (lr_val r) /\ to_scalar (lr_val r) <> None.
+Proof.
+  intros Hl Hit. destruct (last_conc_In _ _ _ _ Hl) as [Hin Hc].
+  destruct (Hit _ Hin) as (r & Hr & Hok & _). exists r. cbn [concerns] in Hc. rewrite Hr in Hc.
+  apply path_eqb_eq in Hc. rewrite (full_path_ok r Hok) in Hc. inversion Hc as [Hk]. clear Hc. subst k.
+  unfold final. rewrite Hl, Hr. split; [reflexivity|]. split; [assumption|]. split; [reflexivity|].
+  split; [reflexivity|]. apply Vals_dec, Hok.
+Qed.
+
+
+(** an item that concerns a key is about a key the query selects *)
+Lemma concerns_under H i k : item_ok H i -> concerns H (name :: k) i = true -> under k = true.
+Proof.
+  destruct i as [g|d|]; cbn [item_ok concerns]; [| |discriminate].
+  - intros (r & Hr & Hok & Hu). rewrite Hr. intros Hc. apply path_eqb_eq in Hc.
+    rewrite (full_path_ok r Hok) in Hc. inversion Hc. congruence.
+  - intros (k' & Hd & _ & Hu) Hc. apply path_eqb_eq in Hc. rewrite Hd in Hc. inversion Hc. congruence.
+Qed.
+
+Lemma not_under_last H q k :
+  (forall i, In i q -> item_ok H i) -> under k = false -> last_conc H (name :: k) q = None.
+Proof.
+  intros Hit Hu. apply last_conc_None. intros i Hin.
+  destruct (concerns H (name :: k) i) eqn:Hc; [|reflexivity].
+  rewrite (concerns_under H i k (Hit i Hin) Hc) in Hu. discriminate.
+Qed.
+
+(** ** an update of a leaf the cache already holds *)
+Lemma sub_upd_existing T H TF sb g old r q' :
+  sub_inv T H TF sb ->
+  lookup T (idx r) = Some g -> hget H g = Some old -> rec_ok old -> idx old = idx r -> rec_ok r ->
+  TF (idx r) = Some (lr_ts old, lr_val old) ->
+  (q' = sb_queue sb /\ (existsb (qitem_is_leaf g) (sb_queue sb) = true
+                        \/ to_scalar (lr_val old) = to_scalar (lr_val r)
+                        \/ under (idx r) = false))
+  \/ (q' = sb_queue sb ++ [QLeaf g] /\ under (idx r) = true) ->
+  sub_inv T (hset H g r) (tfset TF (idx r) (lr_ts r) (lr_val r))
+    {| sb_target := sb_target sb; sb_query := sb_query sb; sb_queue := q'; sb_client := sb_client sb |}.
+Proof.
+  intros [S1 S2 S3 S4 S5 S6 S7] Hlk Hold Hoko Hidx Hr Htf Hq'.
+  assert (Hfp : full_path old = full_path r)
+    by (rewrite (full_path_ok old Hoko), (full_path_ok r Hr); congruence).
+  assert (Hconc : forall p i, concerns (hset H g r) p i = concerns H p i)
+    by (intros; eapply concerns_hset; eauto).
+  assert (Hlast : forall p q, last_conc (hset H g r) p q = last_conc H p q)
+    by (intros; apply last_conc_ext; intros; apply Hconc).
+  assert (Hcg : forall p, concerns H p (QLeaf g) = path_eqb (name :: idx r) p).
+  { intros p. cbn [concerns]. rewrite Hold, Hfp, (full_path_ok r Hr). reflexivity. }
+  assert (Hq'in : forall i, In i q' -> In i (sb_queue sb) \/ (i = QLeaf g /\ under (idx r) = true)).
+  { intros i Hi. destruct Hq' as [[-> _]|[-> Hu]]; [auto|]. apply in_app_iff in Hi as [Hi|[<-|[]]]; auto. }
+  assert (Hlast' : forall k, k <> idx r -> last_conc H (name :: k) q' = last_conc H (name :: k) (sb_queue sb)).
+  { intros k Hk. destruct Hq' as [[-> _]|[-> _]]; [reflexivity|].
+    rewrite last_conc_app. cbn [last_conc]. rewrite Hcg.
+    destruct (path_eqb_spec (name :: idx r) (name :: k)) as [E|_]; [inversion E; congruence|reflexivity]. }
+  constructor; cbn [sb_query sb_queue sb_client]; auto.
+  - (* items *)
+    intros i Hi. destruct (Hq'in i Hi) as [Hi0|[-> Hu]].
+    + specialize (S5 i Hi0). destruct i as [g1|d|]; cbn [item_ok] in *; auto.
+      rewrite hget_hset. destruct (Nat.eqb_spec g1 g) as [->|_]; [|assumption].
+      destruct S5 as (r0 & Hr0 & _ & Hu0). rewrite Hold in Hr0. inversion Hr0; subst r0.
+      exists r. rewrite <- Hidx. auto.
+    + cbn [item_ok]. rewrite hget_hset, Nat.eqb_refl. eauto.
+  - (* final *)
+    intros k Hk. unfold final. rewrite Hlast. unfold tfset.
+    destruct (path_eqb_spec k (idx r)) as [->|Hne].
+    + cbn [decode]. specialize (S6 (idx r) Hk). rewrite Htf in S6. cbn [decode] in S6.
+      specialize (S7 _ _ Hlk). unfold final in S6.
+      destruct Hq' as [[-> Hc]|[-> Hu]].
+      * destruct (last_conc H (name :: idx r) (sb_queue sb)) as [i|] eqn:El.
+        -- subst i. rewrite Hold in S6. rewrite hget_hset, Nat.eqb_refl.
+           destruct (under (idx r)) eqn:Hu.
+           ++ destruct Hc as [Hc|[Hc|Hc]]; [| |discriminate].
+              ** (* pending: reads the new value *) reflexivity.
+              ** reflexivity.
+           ++ exfalso. apply (Vals_dec _ (ro_val old Hoko)). exact S6.
+        -- destruct Hc as [Hc|[Hc|Hc]].
+           ++ exfalso. apply existsb_exists in Hc as (i & Hi & Hig).
+              destruct i as [g1|d|]; cbn in Hig; try discriminate. apply Nat.eqb_eq in Hig. subst g1.
+              apply (proj1 (last_conc_None _ _ _) El) in Hi. rewrite Hcg, path_eqb_refl in Hi. discriminate.
+           ++ rewrite S6. now rewrite Hc.
+           ++ rewrite S6, Hc. reflexivity.
+      * rewrite last_conc_app. cbn [last_conc]. rewrite Hcg, path_eqb_refl.
+        rewrite hget_hset, Nat.eqb_refl, Hu. reflexivity.
+    + rewrite (Hlast' k Hne). specialize (S6 k Hk). unfold final in S6.
+      destruct (last_conc H (name :: k) (sb_queue sb)) as [[g1|d|]|] eqn:El; try assumption.
+      rewrite hget_hset. destruct (Nat.eqb_spec g1 g) as [->|_]; [|assumption].
+      exfalso. apply last_conc_In in El as [_ Hc]. rewrite Hcg in Hc. apply path_eqb_eq in Hc.
+      inversion Hc; congruence.
+  - (* live *)
+    intros k g' Hl'. rewrite Hlast. destruct (path_eqb_spec k (idx r)) as [->|Hne].
+    + assert (g' = g) by congruence. subst g'. specialize (S7 _ _ Hlk).
+      destruct Hq' as [[-> _]|[-> _]]; [assumption|].
+      rewrite last_conc_app. cbn [last_conc]. now rewrite Hcg, path_eqb_refl.
+    + rewrite (Hlast' k Hne). now apply S7.
+Qed.
+
+
+(** ** a leaf the cache did not hold *)
+Lemma sub_upd_new T T' H gen TF sb r q' :
+  sub_inv T H TF sb ->
+  (forall g0 r0, hget H g0 = Some r0 -> (g0 < gen)%nat) ->
+  (forall k, lookup T' k = if path_eqb k (idx r) then Some gen else lookup T k) ->
+  lookup T (idx r) = None -> TF (idx r) = None -> rec_ok r ->
+  q' = (if under (idx r) then sb_queue sb ++ [QLeaf gen] else sb_queue sb) ->
+  sub_inv T' (hset H gen r) (tfset TF (idx r) (lr_ts r) (lr_val r))
+    {| sb_target := sb_target sb; sb_query := sb_query sb; sb_queue := q'; sb_client := sb_client sb |}.
+Proof.
+  intros [S1 S2 S3 S4 S5 S6 S7] Hheap HT' Hnone Htf Hr ->.
+  assert (Hfresh : hget H gen = None).
+  { destruct (hget H gen) as [r0|] eqn:E; [|reflexivity]. apply Hheap in E. lia. }
+  assert (Hconc : forall p i, In i (sb_queue sb) -> concerns (hset H gen r) p i = concerns H p i).
+  { intros p i Hi. apply concerns_hset_fresh; [assumption|]. intros g' ->.
+    destruct (S5 _ Hi) as (r0 & Hr0 & _). congruence. }
+  assert (Hlast : forall p, last_conc (hset H gen r) p (sb_queue sb) = last_conc H p (sb_queue sb))
+    by (intros; apply last_conc_ext; intros; now apply Hconc).
+  assert (Hcg : forall p, concerns (hset H gen r) p (QLeaf gen) = path_eqb (name :: idx r) p).
+  { intros p. cbn [concerns]. rewrite hget_hset, Nat.eqb_refl, (full_path_ok r Hr). reflexivity. }
+  assert (Hget : forall g1, In (QLeaf g1) (sb_queue sb) -> hget (hset H gen r) g1 = hget H g1).
+  { intros g1 Hi. rewrite hget_hset. destruct (Nat.eqb_spec g1 gen) as [->|_]; [|reflexivity].
+    destruct (S5 _ Hi) as (r0 & Hr0 & _). congruence. }
+  assert (Hlq : forall k, last_conc (hset H gen r) (name :: k)
+                  (if under (idx r) then sb_queue sb ++ [QLeaf gen] else sb_queue sb) =
+                if under (idx r) && path_eqb k (idx r) then Some (QLeaf gen)
+                else last_conc H (name :: k) (sb_queue sb)).
+  { intros k. destruct (under (idx r)); cbn [andb]; [|apply Hlast].
+    rewrite last_conc_app. cbn [last_conc]. rewrite Hcg, Hlast.
+    destruct (path_eqb_spec k (idx r)) as [->|Hne].
+    - now rewrite path_eqb_refl.
+    - destruct (path_eqb_spec (name :: idx r) (name :: k)) as [E|_]; [inversion E; congruence|].
+      now destruct (last_conc H (name :: k) (sb_queue sb)). }
+  constructor; cbn [sb_query sb_queue sb_client]; auto.
+  - intros i Hi.
+    assert (Hi' : In i (sb_queue sb) \/ (i = QLeaf gen /\ under (idx r) = true)).
+    { destruct (under (idx r)); [|auto]. apply in_app_iff in Hi as [Hi|[<-|[]]]; auto. }
+    destruct Hi' as [Hi0|[-> Hu]].
+    + specialize (S5 i Hi0). destruct i as [g1|d|]; cbn [item_ok] in *; auto.
+      now rewrite (Hget g1 Hi0).
+    + cbn [item_ok]. rewrite hget_hset, Nat.eqb_refl. eauto.
+  - intros k Hk. unfold final. rewrite Hlq. unfold tfset.
+    destruct (path_eqb_spec k (idx r)) as [->|Hne].
+    + rewrite andb_true_r. cbn [decode]. destruct (under (idx r)) eqn:Hu.
+      * now rewrite hget_hset, Nat.eqb_refl.
+      * rewrite (not_under_last H _ _ S5 Hu). specialize (S6 _ Hk). rewrite Hu in S6.
+        unfold final in S6. now rewrite (not_under_last H _ _ S5 Hu) in S6.
+    + rewrite andb_false_r. specialize (S6 k Hk). unfold final in S6.
+      destruct (last_conc H (name :: k) (sb_queue sb)) as [[g1|d|]|] eqn:El; try assumption.
+      apply last_conc_In in El as [Hi _]. now rewrite (Hget g1 Hi).
+  - intros k g' Hl'. rewrite Hlq. rewrite HT' in Hl'.
+    destruct (path_eqb_spec k (idx r)) as [->|Hne].
+    + inversion Hl'; subst g'. rewrite andb_true_r. destruct (under (idx r)) eqn:Hu; [reflexivity|].
+      now rewrite (not_under_last H _ _ S5 Hu).
+    + rewrite andb_false_r. now apply S7.
+Qed.
+
+Lemma get_branch_lookup (T : tree nat) k cs :
+  wf_tree T -> get T k = Some (Branch cs) -> exists s v, s <> [] /\ lookup T (k ++ s) = Some v.
+Proof.
+  intros Hwf Hg. apply (is_branch_exact T k Hwf). unfold is_branch_at. now rewrite Hg.
+Qed.
+
+(** ** Target.gnmiUpdate for one update of the subscribed target *)
+Lemma update_step T H gen sub TF r :
+  ninv T H gen sub TF -> rec_ok r ->
+  (forall k t0 v, TF k = Some (t0, v) -> t0 <= lr_ts r) ->
+  let w := cache_update_one {| w_tree := T; w_heap := H; w_gen := gen; w_sub := sub; w_fault := None |} r in
+  w_fault w = None /\
+  ninv (w_tree w) (w_heap w) (w_gen w) (w_sub w) (tfset TF (idx r) (lr_ts r) (lr_val r)).
+Proof.
+  intros Hinv Hr Hts. unfold cache_update_one. cbn [w_fault w_tree w_heap w_gen w_sub].
+  rewrite (join_ok r Hr).
+  assert (Hcons : exists tl, idx r = g_origin (lr_prefix r) :: tl) by (eexists; reflexivity).
+  destruct Hcons as (tl & Hcons). rewrite Hcons. cbv beta iota. rewrite <- Hcons.
+  destruct (String.eqb_spec (g_origin (lr_prefix r)) meta_root) as [E|_]; [now apply (ro_meta r Hr) in E|].
+  destruct Hinv as [N1 N2 N3 N4 N5].
+  destruct (get T (idx r)) as [[g|cs]|] eqn:Hget.
+  - (* existing leaf *)
+    apply get_leaf_exact in Hget. destruct (N2 _ _ Hget) as (Hlt & old & Hold & Hoko & Hidx & Htf).
+    rewrite Hold. destruct (lr_ts r <? lr_ts old) eqn:E1.
+    { apply Z.ltb_lt in E1. specialize (Hts _ _ _ Htf). lia. }
+    destruct ((lr_ts r =? lr_ts old) && leafrec_eqb old r) eqn:E2.
+    { split; [reflexivity|]. cbn [w_tree w_heap w_gen w_sub].
+      apply ninv_ext with (TF := TF); [|constructor; assumption].
+      intros k. unfold tfset. destruct (path_eqb_spec k (idx r)) as [->|]; [|reflexivity].
+      rewrite Htf. apply andb_true_iff in E2 as [_ E2]. destruct (leafrec_eqb_val _ _ E2) as [-> ->].
+      reflexivity. }
+    assert (Htree : forall k g0, lookup T k = Some g0 ->
+       (g0 < gen)%nat /\ exists r0, hget (hset H g r) g0 = Some r0 /\ rec_ok r0 /\ idx r0 = k /\
+          tfset TF (idx r) (lr_ts r) (lr_val r) k = Some (lr_ts r0, lr_val r0)).
+    { intros k g0 Hl. destruct (N2 _ _ Hl) as (Hlt0 & r0 & Hr0 & Hok0 & Hidx0 & Htf0).
+      split; [assumption|]. rewrite hget_hset. unfold tfset.
+      destruct (Nat.eqb_spec g0 g) as [->|Hng].
+      - rewrite Hold in Hr0. inversion Hr0; subst r0. exists r. rewrite <- Hidx0, Hidx, path_eqb_refl. auto.
+      - exists r0. destruct (path_eqb_spec k (idx r)) as [->|_]; [congruence|auto]. }
+    assert (Hspec : forall k x, tfset TF (idx r) (lr_ts r) (lr_val r) k = Some x -> exists g0, lookup T k = Some g0).
+    { intros k x. unfold tfset. destruct (path_eqb_spec k (idx r)) as [->|_]; [eauto|apply N3]. }
+    assert (Hheap : forall g0 r0, hget (hset H g r) g0 = Some r0 -> (g0 < gen)%nat).
+    { intros g0 r0. rewrite hget_hset. destruct (Nat.eqb_spec g0 g) as [->|_]; [auto|apply N4]. }
+    destruct (tv_equal (lr_val old) (lr_val r)) eqn:Eeq; cbn [w_fault w_tree w_heap w_gen w_sub];
+      (split; [reflexivity|]); constructor; auto.
+    + destruct sub as [sb|]; [|exact I].
+      replace sb with {| sb_target := sb_target sb; sb_query := sb_query sb; sb_queue := sb_queue sb;
+                         sb_client := sb_client sb |} by (destruct sb; reflexivity).
+      eapply sub_upd_existing; eauto. left. split; [reflexivity|]. right. left.
+      apply Vals_canon; [apply Hoko|apply Hr|assumption].
+    + destruct sub as [sb|]; cbn [feed_leaf]; [|exact I].
+      rewrite (full_path_ok r Hr).
+      replace (mmatch (sb_query sb) (name :: idx r)) with (under (idx r))
+        by (rewrite (si_query _ _ _ _ N5); symmetry; apply mmatch_under, Hr).
+      destruct (under (idx r)) eqn:Hu.
+      * eapply sub_upd_existing; eauto. unfold q_insert_leaf.
+        destruct (existsb (qitem_is_leaf g) (sb_queue sb)) eqn:Ex; [left|right]; auto.
+      * replace sb with {| sb_target := sb_target sb; sb_query := sb_query sb; sb_queue := sb_queue sb;
+                           sb_client := sb_client sb |} by (destruct sb; reflexivity).
+        eapply sub_upd_existing; eauto.
+  - (* a branch where a leaf is written: impossible in a prefix-free schema *)
+    exfalso. destruct (get_branch_lookup T _ _ N1 Hget) as (s & v & Hs & Hl).
+    destruct (N2 _ _ Hl) as (_ & r0 & _ & Hok0 & Hidx0 & _).
+    assert (Hk0 : Keys (idx r ++ s)) by (rewrite <- Hidx0; apply Hok0).
+    pose proof (Keys_pf _ _ (ro_key r Hr) Hk0) as Hpf.
+    destruct s as [|a s]; [congruence|].
+    assert (strict_prefix (idx r) (idx r ++ a :: s) = true) by (apply strict_prefix_spec; eauto). congruence.
+  - (* new leaf *)
+    assert (Hnone : lookup T (idx r) = None).
+    { destruct (lookup T (idx r)) as [g|] eqn:El; [|reflexivity].
+      apply get_leaf_exact in El. congruence. }
+    assert (Htfn : TF (idx r) = None).
+    { destruct (TF (idx r)) as [x|] eqn:E; [|reflexivity]. destruct (N3 _ _ E) as (g & Hg). congruence. }
+    assert (Hcf : conflict_free T (idx r)).
+    { intros q0 w Hq0. destruct (N2 _ _ Hq0) as (_ & r0 & _ & Hok0 & Hidx0 & _).
+      assert (Keys q0) by (rewrite <- Hidx0; apply Hok0).
+      split; apply Keys_pf; auto; apply Hr. }
+    destruct (add T (idx r) gen) as [T'|] eqn:Hadd.
+    2:{ exfalso. apply (add_ok_iff T (idx r) gen N1) in Hcf. congruence. }
+    destruct (add_spec T T' (idx r) gen N1 Hadd) as [Hwf' HT'].
+    cbn [w_fault w_tree w_heap w_gen w_sub]. split; [reflexivity|]. constructor; auto.
+    + intros k g0. rewrite HT'. rewrite hget_hset. unfold tfset.
+      destruct (path_eqb_spec k (idx r)) as [->|Hne].
+      * intros E; inversion E; subst g0. split; [lia|]. rewrite Nat.eqb_refl. exists r. auto.
+      * intros Hl. destruct (N2 _ _ Hl) as (Hlt0 & r0 & Hr0 & Hrest). split; [lia|].
+        destruct (Nat.eqb_spec g0 gen) as [->|_]; [lia|]. eauto.
+    + intros k x. unfold tfset. rewrite HT'. destruct (path_eqb_spec k (idx r)); [eauto|apply N3].
+    + intros g0 r0. rewrite hget_hset. destruct (Nat.eqb_spec g0 gen) as [->|_]; [lia|].
+      intros E. apply N4 in E. lia.
+    + destruct sub as [sb|]; cbn [feed_leaf]; [|exact I].
+      rewrite (full_path_ok r Hr).
+      replace (mmatch (sb_query sb) (name :: idx r)) with (under (idx r))
+        by (rewrite (si_query _ _ _ _ N5); symmetry; apply mmatch_under, Hr).
+      assert (Hnp : existsb (qitem_is_leaf gen) (sb_queue sb) = false).
+      { destruct (existsb (qitem_is_leaf gen) (sb_queue sb)) eqn:Ex; [|reflexivity].
+        apply existsb_exists in Ex as (i & Hi & Hig). destruct i as [g1|d|]; cbn in Hig; try discriminate.
+        apply Nat.eqb_eq in Hig. subst g1. destruct (si_items _ _ _ _ N5 _ Hi) as (r0 & Hr0 & _).
+        apply N4 in Hr0. lia. }
+      destruct (under (idx r)) eqn:Hu.
+      * unfold q_insert_leaf. rewrite Hnp. eapply sub_upd_new; eauto. now rewrite Hu.
+      * replace sb with {| sb_target := sb_target sb; sb_query := sb_query sb; sb_queue := sb_queue sb;
+                           sb_client := sb_client sb |} by (destruct sb; reflexivity).
+        eapply sub_upd_new; eauto. now rewrite Hu.
+Qed.
+
+
+(** ** deletes *)
+
+Lemma del_full_to_delete old ts : rec_ok old -> del_full (to_delete old ts) = name :: idx old.
+Proof.
+  intros [Ht Ho _ _ _ [M1 M2]]. unfold del_full, to_delete. cbn [d_target d_origin d_path].
+  rewrite Ht, (str_nonempty_true _ name_ne).
+  destruct (String.eqb_spec (g_origin (lr_prefix old)) "") as [E|_]; [contradiction|]. cbn [andb].
+  rewrite (str_nonempty_true _ Ho). cbn [app]. unfold idx, strs_of, to_strings_gp. f_equal. f_equal.
+  destruct (g_elem (lr_prefix old)) as [|e1 es1] eqn:E1; destruct (g_elem (lr_path old)) as [|e2 es2] eqn:E2;
+    cbn [g_elem g_element app].
+  - reflexivity.
+  - rewrite M2 by congruence. reflexivity.
+  - rewrite M1 by congruence. now rewrite app_nil_r, app_nil_r.
+  - change (e1 :: es1 ++ e2 :: es2) with ((e1 :: es1) ++ e2 :: es2). now rewrite flat_map_app.
+Qed.
+
+Definition mem (k : path) (D : list path) : bool := existsb (path_eqb k) D.
+
+Definition tf_minus (TF : tfun) (D : list path) : tfun :=
+  fun k => if mem k D then None else TF k.
+
+Lemma sub_inv_ext T H TF TF' sb :
+  (forall k, TF' k = TF k) -> sub_inv T H TF sb -> sub_inv T H TF' sb.
+Proof. intros He []. constructor; auto. intros k Hk. rewrite He. auto. Qed.
+
+Lemma sub_del_one T' H TF sb D k old ts :
+  sub_inv T' H (tf_minus TF D) sb -> rec_ok old -> idx old = k -> lookup T' k = None ->
+  match feed_del (Some sb) (to_delete old ts) with
+  | Some sb' => sub_inv T' H (tf_minus TF (k :: D)) sb'
+  | None => False
+  end.
+Proof.
+  intros [S1 S2 S3 S4 S5 S6 S7] Hok Hidx Hdead. cbn [feed_del].
+  change ((if str_nonempty (d_target (to_delete old ts)) then [d_target (to_delete old ts)] else []) ++
+          (if str_nonempty (d_origin (to_delete old ts)) then [d_origin (to_delete old ts)] else []) ++
+          to_strings_gp (d_path (to_delete old ts)) false) with (del_full (to_delete old ts)).
+  rewrite (del_full_to_delete old ts Hok), Hidx, S1, (mmatch_under k) by (rewrite <- Hidx; apply Hok).
+  assert (Hk : Keys k) by (rewrite <- Hidx; apply Hok).
+  assert (Htm : forall k1, tf_minus TF (k :: D) k1 = if path_eqb k1 k then None else tf_minus TF D k1).
+  { intros k1. unfold tf_minus, mem. cbn [existsb]. now destruct (path_eqb k1 k). }
+  destruct (under k) eqn:Hu.
+  - assert (Hcd : forall p, concerns H p (QDel (to_delete old ts)) = path_eqb (name :: k) p).
+    { intros p. cbn [concerns]. now rewrite (del_full_to_delete old ts Hok), Hidx. }
+    constructor; cbn [sb_query sb_queue sb_client]; auto.
+    + intros i Hi. apply in_app_iff in Hi as [Hi|[<-|[]]]; [auto|].
+      cbn [item_ok]. exists k. rewrite (del_full_to_delete old ts Hok), Hidx. auto.
+    + intros k1 Hk1. rewrite Htm. unfold final. rewrite last_conc_app. cbn [last_conc]. rewrite Hcd.
+      destruct (path_eqb_spec k1 k) as [->|Hne].
+      * rewrite path_eqb_refl. now destruct (under k).
+      * destruct (path_eqb_spec (name :: k) (name :: k1)) as [E|_]; [inversion E; congruence|].
+        specialize (S6 k1 Hk1). unfold final in S6.
+        now destruct (last_conc H (name :: k1) (sb_queue sb)).
+    + intros k1 g1 Hl1. rewrite last_conc_app. cbn [last_conc]. rewrite Hcd.
+      destruct (path_eqb_spec (name :: k) (name :: k1)) as [E|_]; [inversion E; congruence|].
+      specialize (S7 _ _ Hl1). now destruct (last_conc H (name :: k1) (sb_queue sb)).
+  - constructor; auto. intros k1 Hk1. rewrite Htm. destruct (path_eqb_spec k1 k) as [->|_]; [|auto].
+    specialize (S6 k Hk). rewrite Hu in S6. now rewrite Hu.
+Qed.
+
+Lemma join_pre (pre p : gpath) :
+  g_target pre = name -> g_origin pre <> "" ->
+  join_prefix_and_path pre p = Some (g_origin pre :: strs_of pre ++ strs_of p).
+Proof.
+  intros Ht Ho. unfold join_prefix_and_path. unfold to_strings_gp at 1.
+  rewrite Ht, (str_nonempty_true _ name_ne), (str_nonempty_true _ Ho). reflexivity.
+Qed.
+
+(** Target.gnmiRemove for one delete of the subscribed target *)
+Lemma delete_step T H gen sub TF (pre d : gpath) ts :
+  ninv T H gen sub TF ->
+  g_target pre = name -> g_origin pre <> "" -> g_origin pre <> meta_root ->
+  let w := cache_delete_one ts pre {| w_tree := T; w_heap := H; w_gen := gen; w_sub := sub; w_fault := None |} d in
+  w_fault w = None /\
+  ninv (w_tree w) (w_heap w) (w_gen w) (w_sub w) (tfdel TF (g_origin pre :: strs_of pre ++ strs_of d) ts).
+Proof.
+  intros [N1 N2 N3 N4 N5] Ht Ho Hm. unfold cache_delete_one. cbn [w_fault w_tree w_heap w_gen w_sub].
+  rewrite (join_pre pre d Ht Ho). cbv beta iota.
+  destruct (String.eqb_spec (g_origin pre) meta_root) as [E|_]; [contradiction|].
+  set (dk := g_origin pre :: strs_of pre ++ strs_of d).
+  set (cond := fun g : nat => match hget H g with Some r => lr_ts r <? ts | None => false end).
+  destruct (delete_spec T dk cond N1) as (Hwf' & Hlk' & Hrem & Hnd).
+  set (T' := fst (delete_cond T dk cond)) in *. set (rl := snd (delete_cond T dk cond)) in *.
+  cbn [w_fault w_tree w_heap w_gen w_sub]. split; [reflexivity|].
+  assert (Hsub : forall k g, lookup T' k = Some g -> lookup T k = Some g /\ (qmatch dk k && cond g) = false).
+  { intros k g. rewrite Hlk'. unfold sel. destruct (lookup T k) as [g0|]; [|discriminate].
+    destruct (qmatch dk k && cond g0) eqn:E; [discriminate|]. intros E'; inversion E'; subst. auto. }
+  assert (Hcond : forall k g r, lookup T k = Some g -> hget H g = Some r -> cond g = (lr_ts r <? ts)).
+  { intros k g r _ Hr. unfold cond. now rewrite Hr. }
+  constructor; auto.
+  - intros k g Hl. destruct (Hsub _ _ Hl) as [Hl0 Hc]. destruct (N2 _ _ Hl0) as (Hlt & r & Hr & Hok & Hidx & Htf).
+    split; [assumption|]. exists r. repeat (split; [assumption|]). unfold tfdel. rewrite Htf.
+    rewrite (Hcond _ _ _ Hl0 Hr) in Hc. now rewrite Hc.
+  - intros k x. unfold tfdel. destruct (TF k) as [[t0 v]|] eqn:Htf; [|discriminate].
+    destruct (qmatch dk k && (t0 <? ts)) eqn:Hc; [discriminate|]. intros _.
+    destruct (N3 _ _ Htf) as (g & Hg). destruct (N2 _ _ Hg) as (_ & r & Hr & _ & _ & Htf').
+    rewrite Htf in Htf'. inversion Htf'; subst. exists g. rewrite Hlk', Hg. unfold sel.
+    now rewrite (Hcond _ _ _ Hg Hr), Hc.
+  - destruct sub as [sb|].
+    2:{ assert (Hn : forall l, fold_left (fun (s : option subscriber) (pg : path * nat) =>
+                      match hget H (snd pg) with
+                      | Some old => feed_del s (to_delete old ts)
+                      | None => s end) l None = None).
+        { induction l as [|pg l IH]; cbn [fold_left]; [reflexivity|].
+          destruct (hget H (snd pg)); cbn [feed_del]; apply IH. }
+        now rewrite Hn. }
+    (* generalise over the removed leaves processed so far *)
+    assert (Hgen : forall l D (s : subscriber),
+      (forall k g, In (k, g) l -> lookup T k = Some g /\ lookup T' k = None) ->
+      sub_inv T' H (tf_minus TF D) s ->
+      match fold_left (fun s pg => match hget H (snd pg) with
+                                   | Some old => feed_del s (to_delete old ts)
+                                   | None => s end) l (Some s) with
+      | Some s' => sub_inv T' H (tf_minus TF (map fst l ++ D)) s'
+      | None => False
+      end).
+    { induction l as [|[k g] l IH]; intros D s Hl Hs; cbn [fold_left map app]; [assumption|].
+      destruct (Hl k g (or_introl eq_refl)) as [Hlk Hdead].
+      destruct (N2 _ _ Hlk) as (_ & old & Hold & Hoko & Hidx & _). cbn [snd]. rewrite Hold.
+      pose proof (sub_del_one T' H TF s D k old ts Hs Hoko Hidx Hdead) as Hone.
+      destruct (feed_del (Some s) (to_delete old ts)) as [s1|]; [|contradiction].
+      specialize (IH (k :: D) s1 (fun k0 g0 Hin => Hl k0 g0 (or_intror Hin)) Hone).
+      destruct (fold_left _ l (Some s1)) as [s2|]; [|contradiction].
+      eapply sub_inv_ext; [|exact IH]. intros k1. unfold tf_minus, mem.
+      cbn [fst existsb]. rewrite !existsb_app. cbn [existsb].
+      destruct (path_eqb k1 k), (existsb (path_eqb k1) (keys l)), (existsb (path_eqb k1) D); reflexivity. }
+    assert (Hrl : forall k g, In (k, g) rl -> lookup T k = Some g /\ lookup T' k = None).
+    { intros k g Hin. apply Hrem in Hin as (Hl & Hq & Hc). split; [assumption|].
+      rewrite Hlk', Hl. unfold sel. now rewrite Hq, Hc. }
+    assert (Hstart : sub_inv T' H (tf_minus TF []) sb).
+    { destruct N5 as [S1 S2 S3 S4 S5 S6 S7]. constructor; auto.
+      intros k g Hl. destruct (Hsub _ _ Hl) as [Hl0 _]. now apply S7. }
+    specialize (Hgen rl [] sb Hrl Hstart).
+    destruct (fold_left _ rl (Some sb)) as [s'|]; [|contradiction].
+    eapply sub_inv_ext; [|exact Hgen]. intros k. unfold tf_minus, tfdel. rewrite app_nil_r.
+    destruct (mem k (map fst rl)) eqn:Hmem.
+    + apply existsb_exists in Hmem as (k0 & Hin & E). apply path_eqb_eq in E. subst k0.
+      apply in_map_iff in Hin as ([k0 g] & E & Hin). cbn in E. subst k0.
+      apply Hrem in Hin as (Hl & Hq & Hc). destruct (N2 _ _ Hl) as (_ & r & Hr & _ & _ & Htf).
+      rewrite Htf, Hq. rewrite (Hcond _ _ _ Hl Hr) in Hc. now rewrite Hc.
+    + destruct (TF k) as [[t0 v]|] eqn:Htf; [|reflexivity].
+      destruct (qmatch dk k && (t0 <? ts)) eqn:Hc; [|reflexivity]. exfalso.
+      destruct (N3 _ _ Htf) as (g & Hg). destruct (N2 _ _ Hg) as (_ & r & Hr & _ & _ & Htf').
+      rewrite Htf in Htf'. inversion Htf'; subst. apply andb_true_iff in Hc as [Hq Hc].
+      assert (Hin : In (k, g) rl) by (apply Hrem; rewrite (Hcond _ _ _ Hg Hr); auto).
+      assert (mem k (map fst rl) = true); [|congruence].
+      apply existsb_exists. exists k. split; [|apply path_eqb_refl].
+      apply in_map_iff. exists (k, g). auto.
+Qed.
+
+
+(** ** one notification of the subscribed target *)
+
+Definition skey (pre p : gpath) : path := g_origin pre :: strs_of pre ++ strs_of p.
+
+Definition tf_updates (TF : tfun) (pre : gpath) (ts : Z) (us : list (gpath * tv)) : tfun :=
+  fold_left (fun f u => tfset f (skey pre (fst u)) ts (snd u)) us TF.
+
+Definition tf_deletes (TF : tfun) (pre : gpath) (ts : Z) (ds : list gpath) : tfun :=
+  fold_left (fun f d => tfdel f (skey pre d) ts) ds TF.
+
+Definition tf_bound (TF : tfun) (t : Z) : Prop := forall k t0 v, TF k = Some (t0, v) -> t0 <= t.
+
+Definition winv (w : wstate) (TF : tfun) : Prop :=
+  w_fault w = None /\ ninv (w_tree w) (w_heap w) (w_gen w) (w_sub w) TF.
+
+Lemma tf_bound_set TF k t v : tf_bound TF t -> tf_bound (tfset TF k t v) t.
+Proof.
+  intros Hb k' t0 v0. unfold tfset. destruct (path_eqb k' k); [|apply Hb].
+  intros E; inversion E; subst. lia.
+Qed.
+
+Lemma tf_bound_del TF d t t' : tf_bound TF t -> tf_bound (tfdel TF d t') t.
+Proof.
+  intros Hb k' t0 v0. unfold tfdel. destruct (TF k') as [[t1 v1]|] eqn:E; [|discriminate].
+  destruct (qmatch d k' && (t1 <? t')); [discriminate|]. intros E'; inversion E'; subst. eapply Hb; eauto.
+Qed.
+
+Lemma noti_step w TF pre ts us ds :
+  winv w TF -> tf_bound TF ts ->
+  g_target pre = name -> g_origin pre <> "" -> g_origin pre <> meta_root ->
+  (forall u, In u us -> rec_ok {| lr_ts := ts; lr_prefix := pre; lr_path := fst u; lr_val := snd u |}) ->
+  let n := {| n_ts := ts; n_prefix := Some pre; n_updates := us; n_deletes := ds |} in
+  winv (target_gnmi_update w n pre) (tf_deletes (tf_updates TF pre ts us) pre ts ds)
+  /\ tf_bound (tf_deletes (tf_updates TF pre ts us) pre ts ds) ts.
+Proof.
+  intros Hw Hb Ht Ho Hm Hus. cbn zeta. unfold target_gnmi_update. cbn [n_ts n_updates n_deletes].
+  assert (Hu : forall us0 w TF, winv w TF -> tf_bound TF ts ->
+    (forall u, In u us0 -> rec_ok {| lr_ts := ts; lr_prefix := pre; lr_path := fst u; lr_val := snd u |}) ->
+    winv (fold_left (fun w u => cache_update_one w {| lr_ts := ts; lr_prefix := pre; lr_path := fst u; lr_val := snd u |}) us0 w)
+         (tf_updates TF pre ts us0) /\ tf_bound (tf_updates TF pre ts us0) ts).
+  { clear Hw Hb Hus w TF. induction us0 as [|u us0 IH]; intros w TF Hw Hb Hus; cbn [fold_left tf_updates]; [auto|].
+    apply IH.
+    - destruct w as [T H gen sub flt]. destruct Hw as [Hf Hn]. cbn in Hf, Hn. subst flt.
+      apply (update_step T H gen sub TF _ Hn (Hus u (or_introl eq_refl))). exact Hb.
+    - now apply tf_bound_set.
+    - intros; apply Hus; now right. }
+  assert (Hd : forall ds0 w TF, winv w TF -> tf_bound TF ts ->
+    winv (fold_left (cache_delete_one ts pre) ds0 w) (tf_deletes TF pre ts ds0)
+    /\ tf_bound (tf_deletes TF pre ts ds0) ts).
+  { clear Hu Hus Hw Hb w TF. induction ds0 as [|d ds0 IH]; intros w TF Hw Hb; cbn [fold_left tf_deletes]; [auto|].
+    apply IH.
+    - destruct w as [T H gen sub flt]. destruct Hw as [Hf Hn]. cbn in Hf, Hn. subst flt.
+      apply (delete_step T H gen sub TF pre d ts Hn Ht Ho Hm).
+    - now apply tf_bound_del. }
+  destruct (Hu us w TF Hw Hb Hus) as [Hw1 Hb1]. now apply Hd.
+Qed.
+
+
+(** ** the sender forwards one queue entry *)
+
+Lemma client_add_lookup (t : tree scalar) k s0 :
+  wf_tree t -> (forall p s, lookup t p = Some s -> exists k, p = name :: k /\ Keys k) -> Keys k ->
+  exists t', add t (name :: k) s0 = Some t' /\ wf_tree t' /\
+             forall p, lookup t' p = if path_eqb p (name :: k) then Some s0 else lookup t p.
+Proof.
+  intros Hwf Hst Hk.
+  assert (Hcf : conflict_free t (name :: k)).
+  { intros p w Hp. destruct (Hst _ _ Hp) as (k2 & -> & Hk2). rewrite !strict_prefix_cons.
+    rewrite (Keys_pf _ _ Hk2 Hk), (Keys_pf _ _ Hk Hk2). now rewrite !andb_false_r. }
+  destruct (add t (name :: k) s0) as [t'|] eqn:Ha.
+  - exists t'. destruct (add_spec t t' _ _ Hwf Ha). auto.
+  - exfalso. apply (add_ok_iff t (name :: k) s0 Hwf) in Hcf. congruence.
+Qed.
+
+Lemma client_delete_lookup (t : tree scalar) k :
+  wf_tree t -> (forall p s, lookup t p = Some s -> exists k, p = name :: k /\ Keys k) -> Keys k ->
+  wf_tree (fst (delete t (name :: k))) /\
+  forall p, lookup (fst (delete t (name :: k))) p = if path_eqb p (name :: k) then None else lookup t p.
+Proof.
+  intros Hwf Hst Hk. unfold delete. destruct (delete_spec t (name :: k) (fun _ => true) Hwf) as (Hwf' & Hl & _).
+  split; [assumption|]. intros p. rewrite Hl. unfold sel.
+  destruct (lookup t p) as [v|] eqn:Hp; [|now destruct (path_eqb p (name :: k))].
+  destruct (Hst _ _ Hp) as (k2 & -> & Hk2). rewrite andb_true_r.
+  rewrite qmatch_glob_free by (cbn; rewrite name_ng; cbn; now apply Keys_gf).
+  cbn [is_prefix path_eqb]. rewrite String.eqb_refl. cbn [andb].
+  destruct (path_eqb_spec k2 k) as [->|Hne]; [now rewrite is_prefix_refl|].
+  destruct (is_prefix k k2) eqn:Hpre; [|reflexivity].
+  apply is_prefix_strict_or_eq in Hpre as [->|Hs]; [congruence|].
+  rewrite (Keys_pf _ _ Hk Hk2) in Hs. discriminate.
+Qed.
+
+Lemma send_step T H TF sb i q' :
+  sub_inv T H TF sb -> sb_queue sb = i :: q' ->
+  sub_inv T H TF {| sb_target := sb_target sb; sb_query := sb_query sb; sb_queue := q';
+                    sb_client := deliver H (sb_client sb) i |}.
+Proof.
+  intros [S1 S2 S3 S4 S5 S6 S7] Hq. rewrite Hq in *.
+  assert (Hit : item_ok H i) by (apply S5; now left).
+  assert (Hlive : forall k g, lookup T k = Some g ->
+            match last_conc H (name :: k) q' with None => True | Some j => j = QLeaf g end).
+  { intros k g Hl. specialize (S7 _ _ Hl). cbn [last_conc] in S7.
+    now destruct (last_conc H (name :: k) q'). }
+  (* the effect of delivering [i] on the client's tree *)
+  assert (Heff : exists c', deliver H (sb_client sb) i = c' /\ cl_err c' = false /\ wf_tree (cl_tree c') /\
+     (forall p s, lookup (cl_tree c') p = Some s -> exists k, p = name :: k /\ Keys k) /\
+     forall k, Keys k -> lookup (cl_tree c') (name :: k) =
+        if concerns H (name :: k) i
+        then match i with
+             | QLeaf g => match hget H g with Some r => to_scalar (lr_val r) | None => None end
+             | _ => None
+             end
+        else lookup (cl_tree (sb_client sb)) (name :: k)).
+  { destruct i as [g|d|]; cbn [deliver item_ok concerns] in *.
+    - destruct Hit as (r & Hr & Hok & Hu). rewrite Hr. unfold client_recv. rewrite S2.
+      unfold resp_of_leaf. cbn [rs_prefix rs_updates rs_deletes client_updates].
+      destruct (to_scalar (lr_val r)) as [s0|] eqn:Hs; [|exfalso; now apply (Vals_dec _ (ro_val r Hok))].
+      change (to_strings_gp (lr_prefix r) true ++ to_strings_gp (lr_path r) false) with (full_path r).
+      rewrite (full_path_ok r Hok).
+      destruct (client_add_lookup _ (idx r) s0 S3 S4 (ro_key r Hok)) as (t' & Ha & Hwf' & Hl').
+      rewrite Ha. cbn [client_updates client_deletes fold_left]. eexists. split; [reflexivity|].
+      cbn [cl_err cl_tree]. split; [reflexivity|]. split; [assumption|]. split.
+      + intros p s. rewrite Hl'. destruct (path_eqb_spec p (name :: idx r)) as [->|_]; [|apply S4].
+        intros _. exists (idx r). split; [reflexivity|apply Hok].
+      + intros k Hk. rewrite Hl'. rewrite (path_eqb_sym_b (name :: k)). reflexivity.
+    - destruct Hit as (k0 & Hd & Hk0 & Hu). unfold client_recv. rewrite S2.
+      unfold resp_of_del. cbn [rs_prefix rs_updates rs_deletes client_updates client_deletes fold_left].
+      assert (Hdf : to_strings_gp {| g_origin := d_origin d; g_target := d_target d; g_elem := []; g_element := [] |} true
+                    ++ to_strings_gp (d_path d) false = del_full d).
+      { unfold del_full, to_strings_gp. cbn [g_target g_origin g_elem g_element]. now rewrite app_nil_r, <- app_assoc. }
+      rewrite Hdf, Hd. destruct (client_delete_lookup _ k0 S3 S4 Hk0) as [Hwf' Hl'].
+      eexists. split; [reflexivity|]. cbn [cl_err cl_tree]. split; [reflexivity|]. split; [assumption|]. split.
+      + intros p s. rewrite Hl'. destruct (path_eqb p (name :: k0)); [discriminate|apply S4].
+      + intros k Hk. rewrite Hl'. rewrite (path_eqb_sym_b (name :: k)). reflexivity.
+    - unfold client_sync. rewrite S2. eexists. split; [reflexivity|]. cbn [cl_err cl_tree]. auto. }
+  destruct Heff as (c' & -> & E1 & E2 & E3 & E4).
+  constructor; cbn [sb_query sb_queue sb_client]; auto.
+  - intros j Hj. apply S5. now right.
+  - intros k Hk. specialize (S6 k Hk). unfold final in *. cbn [last_conc] in S6.
+    destruct (last_conc H (name :: k) q') as [j|]; [assumption|].
+    rewrite (E4 k Hk). destruct (concerns H (name :: k) i); [|assumption].
+    destruct i; assumption.
+Qed.
+
+
+Lemma drain_steps T H TF : forall q sb,
+  sub_inv T H TF sb -> sb_queue sb = q ->
+  sub_inv T H TF {| sb_target := sb_target sb; sb_query := sb_query sb; sb_queue := [];
+                    sb_client := drain_queue H (sb_client sb) q |}.
+Proof.
+  induction q as [|i q IH]; intros sb Hs Hq; cbn [drain_queue].
+  - destruct sb; cbn in *; subst; assumption.
+  - pose proof (send_step T H TF sb i q Hs Hq) as H1.
+    specialize (IH _ H1 eq_refl). exact IH.
+Qed.
+
+(** ** the client's Subscribe arrives *)
+
+Lemma sub_query_complete (q : cquery) fp :
+  complete_path (cq_prefix q) (cq_path q) = Some fp -> g_target (cq_prefix q) <> "" ->
+  sub_query q = g_target (cq_prefix q) :: fp.
+Proof.
+  unfold complete_path, sub_query. intros Hc Ht. unfold to_strings_gp at 1.
+  rewrite (str_nonempty_true _ Ht). cbn [app].
+  destruct (str_nonempty (g_origin (cq_prefix q))) eqn:Eo.
+  - destruct (str_nonempty (g_origin (cq_path q))) eqn:Ep; cbn [andb] in Hc; [discriminate|].
+    inversion Hc; subst fp. unfold str_nonempty in Eo. apply negb_true_iff in Eo. rewrite Eo. cbn [andb app].
+    reflexivity.
+  - cbn [andb] in Hc. unfold str_nonempty in Eo. apply negb_false_iff in Eo. rewrite Eo. cbn [andb app].
+    destruct (str_nonempty (g_origin (cq_path q))) eqn:Ep.
+    + destruct (to_strings_gp (cq_prefix q) false) eqn:Ei; [|discriminate]. inversion Hc; subst fp.
+      change (match g_elem (cq_prefix q) with
+              | [] => g_element (cq_prefix q)
+              | p0 :: l => flat_map (fun e : pelem => e_name e :: key_vals (e_keys e)) (p0 :: l)
+              end) with (to_strings_gp (cq_prefix q) false). now rewrite Ei.
+    + inversion Hc; subst fp. reflexivity.
+Qed.
+
+Lemma subscribe_step T H gen TF (q : cquery) :
+  ninv T H gen None TF -> sub_query q = Q -> g_target (cq_prefix q) = name ->
+  complete_path (cq_prefix q) (cq_path q) = Some Qr ->
+  sub_inv T H TF {| sb_target := name; sb_query := Q;
+                    sb_queue := map QLeaf (map snd (query T Qr)) ++ [QSync]; sb_client := client0 |}.
+Proof.
+  intros [N1 N2 N3 N4 _] HQ Ht Hcp.
+  assert (Hqr : glob_free Qr = true).
+  { pose proof Q_gf as Hg. rewrite Q_eq in Hg. cbn in Hg. now apply andb_true_iff in Hg as [_ Hg]. }
+  assert (Hunder : forall k, under k = qmatch Qr k).
+  { intros k. unfold under. rewrite Q_eq. cbn [is_prefix]. rewrite String.eqb_refl. cbn [andb].
+    symmetry. now apply qmatch_glob_free. }
+  assert (Hin : forall i, In i (map QLeaf (map snd (query T Qr)) ++ [QSync]) ->
+            i = QSync \/ exists k g, i = QLeaf g /\ lookup T k = Some g /\ under k = true).
+  { intros i Hi. apply in_app_iff in Hi as [Hi|[<-|[]]]; [|now left]. right.
+    apply in_map_iff in Hi as (g & <- & Hg). apply in_map_iff in Hg as ([k g'] & E & Hkg). cbn in E. subst g'.
+    apply (query_exact T Qr k g N1) in Hkg as [Hl Hm]. exists k, g. rewrite Hunder. auto. }
+  assert (Hconc : forall k i, In i (map QLeaf (map snd (query T Qr)) ++ [QSync]) ->
+            concerns H (name :: k) i = true -> exists g, i = QLeaf g /\ lookup T k = Some g).
+  { intros k i Hi Hc. destruct (Hin i Hi) as [->|(k' & g & -> & Hl & Hu)]; [discriminate|].
+    destruct (N2 _ _ Hl) as (_ & r & Hr & Hok & Hidx & _). cbn [concerns] in Hc. rewrite Hr in Hc.
+    apply path_eqb_eq in Hc. rewrite (full_path_ok r Hok) in Hc. inversion Hc. exists g. split; congruence. }
+  constructor; cbn [sb_query sb_queue sb_client client0 cl_err cl_tree]; auto.
+  - exact I.
+  - intros p s. cbn. discriminate.
+  - intros i Hi. destruct (Hin i Hi) as [->|(k & g & -> & Hl & Hu)]; [exact I|].
+    destruct (N2 _ _ Hl) as (_ & r & Hr & Hok & Hidx & _). exists r. rewrite Hidx. auto.
+  - intros k Hk. unfold final.
+    destruct (last_conc H (name :: k) (map QLeaf (map snd (query T Qr)) ++ [QSync])) as [i|] eqn:El.
+    + apply last_conc_In in El as [Hi Hc]. destruct (Hconc k i Hi Hc) as (g & -> & Hl).
+      destruct (Hin _ Hi) as [E|(k' & g' & E & Hl' & Hu)]; [discriminate|]. inversion E; subst g'.
+      destruct (N2 _ _ Hl) as (_ & r & Hr & Hok & Hidx & Htf). rewrite Hr, Htf. cbn [decode].
+      (* k' = k: same object *)
+      destruct (N2 _ _ Hl') as (_ & r' & Hr' & _ & Hidx' & _). rewrite Hr in Hr'. inversion Hr'; subst r'.
+      assert (Hkk : k' = k) by congruence. rewrite Hkk in Hu. now rewrite Hu.
+    + cbn. destruct (under k) eqn:Hu; [|reflexivity].
+      destruct (TF k) as [x|] eqn:Htf; [|reflexivity]. exfalso.
+      destruct (N3 _ _ Htf) as (g & Hl). destruct (N2 _ _ Hl) as (_ & r & Hr & Hok & Hidx & _).
+      assert (Hi : In (QLeaf g) (map QLeaf (map snd (query T Qr)) ++ [QSync])).
+      { apply in_app_iff. left. apply in_map. apply in_map_iff. exists (k, g). split; [reflexivity|].
+        apply (query_exact T Qr k g N1). rewrite <- Hunder. auto. }
+      apply (proj1 (last_conc_None _ _ _) El) in Hi. cbn [concerns] in Hi.
+      rewrite Hr, (full_path_ok r Hok), Hidx, path_eqb_refl in Hi. discriminate.
+  - intros k g Hl.
+    destruct (last_conc H (name :: k) (map QLeaf (map snd (query T Qr)) ++ [QSync])) as [i|] eqn:El; [|exact I].
+    apply last_conc_In in El as [Hi Hc]. destruct (Hconc k i Hi Hc) as (g' & -> & Hl'). congruence.
+Qed.
+
+
+(** ** whole runs *)
+
+(** the prefix a notification carries after the collector's Update closure *)
+Definition spre (n : notification) : gpath :=
+  match n_prefix n with
+  | None => {| g_origin := openconfig; g_target := name; g_elem := []; g_element := [] |}
+  | Some p =>
+      {| g_origin := if str_nonempty (g_origin p) then g_origin p else openconfig;
+         g_target := name; g_elem := g_elem p; g_element := g_element p |}
+  end.
+
+Lemma stamp_spre n :
+  stamp name n = {| n_ts := n_ts n; n_prefix := Some (spre n); n_updates := n_updates n; n_deletes := n_deletes n |}.
+Proof. reflexivity. Qed.
+
+Lemma spre_target n : g_target (spre n) = name.
+Proof. unfold spre. now destruct (n_prefix n). Qed.
+
+Lemma spre_origin n : g_origin (spre n) <> "".
+Proof.
+  unfold spre. destruct (n_prefix n) as [p|]; cbn; [|discriminate].
+  unfold str_nonempty. destruct (String.eqb_spec (g_origin p) ""); cbn; [discriminate|assumption].
+Qed.
+
+Definition item_good (it : item) : Prop :=
+  match it with
+  | ISync => True
+  | IUpd n =>
+      g_origin (spre n) <> meta_root /\
+      forall u, In u (n_updates n) ->
+        rec_ok {| lr_ts := n_ts n; lr_prefix := spre n; lr_path := fst u; lr_val := snd u |}
+  end.
+
+Definition tf_item (TF : tfun) (it : item) : tfun :=
+  match it with
+  | ISync => TF
+  | IUpd n => tf_deletes (tf_updates TF (spre n) (n_ts n) (n_updates n)) (spre n) (n_ts n) (n_deletes n)
+  end.
+
+Definition tf0 : tfun := fun _ => None.
+Definition tf_run (c : list item) : tfun := fold_left tf_item c tf0.
+
+Definition pinv (st : pstate) (TF : tfun) : Prop :=
+  ps_fault st = None /\
+  exists T, assoc name (ps_cache st) = Some T /\ ninv T (ps_heap st) (ps_gen st) (ps_sub st) TF.
+
+Definition bound_opt (TF : tfun) (last : option Z) : Prop :=
+  match last with Some t => tf_bound TF t | None => forall k, TF k = None end.
+
+Lemma ingest_own st TF it last :
+  pinv st TF -> item_good it -> bound_opt TF last -> ts_increasing last [it] = true ->
+  pinv (ingest st name it) (tf_item TF it) /\
+  bound_opt (tf_item TF it) (match it with IUpd n => Some (n_ts n) | ISync => last end).
+Proof.
+  intros [Hf (T & HT & Hn)] Hg Hb Hts. unfold ingest. rewrite Hf.
+  destruct it as [|n]; [split; [split; eauto|assumption]|].
+  rewrite stamp_spre. cbn [n_prefix]. rewrite HT. destruct Hg as [Hm Hus].
+  assert (Hb' : tf_bound TF (n_ts n)).
+  { destruct last as [t|]; cbn in Hb, Hts.
+    - rewrite andb_true_r in Hts. apply Z.ltb_lt in Hts. intros k t0 v E. specialize (Hb _ _ _ E). lia.
+    - intros k t0 v E. now rewrite Hb in E. }
+  pose proof (noti_step {| w_tree := T; w_heap := ps_heap st; w_gen := ps_gen st; w_sub := ps_sub st; w_fault := None |}
+                TF (spre n) (n_ts n) (n_updates n) (n_deletes n)
+                (conj eq_refl Hn) Hb' (spre_target n) (spre_origin n) Hm Hus) as [[Hwf Hwn] Hbb].
+  cbn zeta in Hwf, Hwn. split; [|exact Hbb]. split; [exact Hwf|].
+  cbn [ps_cache ps_heap ps_gen ps_sub]. eexists. split; [|exact Hwn].
+  rewrite assoc_aset. now rewrite String.eqb_refl.
+Qed.
+
+Lemma ts_increasing_cons last it rest :
+  ts_increasing last (it :: rest) = true ->
+  ts_increasing last [it] = true /\
+  ts_increasing (match it with IUpd n => Some (n_ts n) | ISync => last end) rest = true.
+Proof.
+  destruct it as [|n]; cbn; [auto|]. rewrite andb_true_r. intros H. now apply andb_true_iff in H.
+Qed.
+
+Lemma ingest_all : forall rem st TF last,
+  pinv st TF -> Forall item_good rem -> bound_opt TF last -> ts_increasing last rem = true ->
+  pinv (fold_left (fun st it => ingest st name it) rem st) (fold_left tf_item rem TF).
+Proof.
+  induction rem as [|it rem IH]; intros st TF last Hp Hg Hb Hts; cbn [fold_left]; [assumption|].
+  inversion Hg as [|? ? Hg1 Hg2]; subst. destruct (ts_increasing_cons _ _ _ Hts) as [Ht1 Ht2].
+  destruct (ingest_own st TF it last Hp Hg1 Hb Ht1) as [Hp' Hb']. eapply IH; eauto.
+Qed.
+
+Variable cq : cquery.
+Hypothesis cq_query : sub_query cq = Q.
+Hypothesis cq_target : g_target (cq_prefix cq) = name.
+Hypothesis cq_complete : complete_path (cq_prefix cq) (cq_path cq) = Some Qr.
+
+Lemma subscribe_pinv st TF :
+  pinv st TF -> ps_sub st = None ->
+  exists st', subscribe_stream st cq = (st', SubOk) /\ pinv st' TF /\ ps_sub st' <> None.
+Proof.
+  intros [Hf (T & HT & Hn)] Hs. unfold subscribe_stream. rewrite cq_target.
+  destruct (String.eqb_spec name "") as [E|_]; [contradiction|]. rewrite HT.
+  unfold snapshot. rewrite cq_complete. eexists. split; [reflexivity|]. split; [|discriminate].
+  split; [assumption|]. exists T. cbn [ps_cache ps_heap ps_gen ps_sub]. split; [assumption|].
+  rewrite Hs in Hn. destruct Hn as [N1 N2 N3 N4 N5]. constructor; auto.
+  rewrite cq_query. apply (subscribe_step T (ps_heap st) (ps_gen st) TF cq); auto.
+  constructor; auto.
+Qed.
+
+Lemma send_pinv st TF : pinv st TF -> pinv (send_one st) TF.
+Proof.
+  intros [Hf (T & HT & Hn)]. unfold send_one. destruct (ps_sub st) as [sb|] eqn:Hs; [|split; eauto; exists T; now rewrite Hs].
+  destruct (sb_queue sb) as [|i q'] eqn:Hq; [split; eauto; exists T; now rewrite Hs|].
+  split; [assumption|]. exists T. cbn [ps_cache ps_heap ps_gen ps_sub]. split; [assumption|].
+  destruct Hn as [N1 N2 N3 N4 N5]. constructor; auto. now apply send_step.
+Qed.
+
+Lemma drain_pinv st TF sb :
+  pinv st TF -> ps_sub st = Some sb ->
+  exists sb', ps_sub (drain st) = Some sb' /\ sb_queue sb' = [] /\ ps_fault (drain st) = None /\
+              exists T, sub_inv T (ps_heap st) TF sb' /\ ninv T (ps_heap st) (ps_gen st) (Some sb) TF.
+Proof.
+  intros [Hf (T & HT & Hn)] Hs. unfold drain. rewrite Hs. eexists. split; [reflexivity|].
+  split; [reflexivity|]. split; [assumption|]. exists T. rewrite Hs in Hn. split; [|assumption].
+  destruct Hn as [_ _ _ _ N5]. now apply drain_steps.
+Qed.
+
+
+(** from a quiescent collector to the client's leaves: the subscription (if it
+    has not happened yet), the drained queue, the resulting view *)
+Lemma finish_view st1 subres TF :
+  pinv st1 TF ->
+  (subres = None /\ ps_sub st1 = None) \/ (subres = Some SubOk /\ ps_sub st1 <> None) ->
+  let rs2 := do_subscribe {| rn_st := st1; rn_streams := []; rn_subres := subres |} cq in
+  exists l, final_view {| rn_st := drain (rn_st rs2); rn_streams := []; rn_subres := rn_subres rs2 |} = VLeaves l /\
+    NoDup (map fst l) /\
+    forall p sc, In (p, sc) l <->
+      exists k, p = name :: k /\ under k = true /\ decode (TF k) = Some sc.
+Proof.
+  intros Hp H7. cbn zeta.
+  (* the subscription, if it did not happen yet *)
+  assert (Hsub : exists st2, rn_st (do_subscribe {| rn_st := st1; rn_streams := []; rn_subres := subres |} cq) = st2 /\
+            rn_subres (do_subscribe {| rn_st := st1; rn_streams := []; rn_subres := subres |} cq) = Some SubOk /\
+            pinv st2 (TF) /\ ps_sub st2 <> None).
+  { unfold do_subscribe. cbn [rn_subres rn_st]. destruct H7 as [[Hr Hs]|[Hr Hs]]; rewrite Hr.
+    - pose proof Hs as Hs1.
+      destruct (subscribe_pinv _ _ Hp Hs1) as (st' & E & Hp' & Hne). rewrite E. cbn [rn_st rn_subres]. eauto.
+    - exists st1. cbn [rn_st rn_subres]. split; [reflexivity|]. split; [reflexivity|]. split; [assumption|].
+      exact Hs. }
+  destruct Hsub as (st2 & E2 & Er & Hp2 & Hne). rewrite E2, Er.
+  destruct (ps_sub st2) as [sb|] eqn:Hsb; [|congruence].
+  destruct (drain_pinv st2 _ sb Hp2 Hsb) as (sb' & Hd1 & Hd2 & Hd3 & T & Hsi & Hni).
+  unfold final_view. cbn [rn_st rn_subres]. rewrite Hd3, Hd1. destruct Hsi as [S1 S2 S3 S4 S5 S6 S7].
+  rewrite S2. eexists. split; [reflexivity|].
+  assert (Hlk : forall p sc, lookup (cl_tree (sb_client sb')) p = Some sc <->
+              exists k, p = name :: k /\ under k = true /\ decode (TF k) = Some sc).
+  { intros p sc. split.
+    - intros Hl. destruct (S4 _ _ Hl) as (k & -> & Hk). exists k. split; [reflexivity|].
+      specialize (S6 k Hk). unfold final in S6. rewrite Hd2 in S6. cbn [last_conc] in S6.
+      rewrite Hl in S6. destruct (under k); [auto|discriminate].
+    - intros (k & -> & Hu & Hdec). destruct (TF k) as [[t0 v]|] eqn:Htfk; [|discriminate].
+      destruct Hni as [_ N2 N3 _ _]. destruct (N3 _ _ Htfk) as (g & Hg).
+      destruct (N2 _ _ Hg) as (_ & r & _ & Hok & Hidx & _).
+      assert (Hk : Keys k) by (rewrite <- Hidx; apply Hok).
+      specialize (S6 k Hk). unfold final in S6. rewrite Hd2 in S6. cbn [last_conc] in S6.
+      rewrite Hu, Htfk in S6. rewrite S6. exact Hdec. }
+  assert (Hnm : forall p sc, lookup (cl_tree (sb_client sb')) p = Some sc -> is_meta_leaf p = false).
+  { intros p sc Hl. apply Hlk in Hl as (k & -> & _ & Hdec).
+    destruct (TF k) as [[t0 v]|] eqn:Htfk; [|discriminate].
+    destruct Hni as [_ N2 N3 _ _]. destruct (N3 _ _ Htfk) as (g & Hg).
+    destruct (N2 _ _ Hg) as (_ & r & _ & Hok & Hidx & _). rewrite <- Hidx. unfold idx. cbn.
+    destruct (String.eqb_spec (g_origin (lr_prefix r)) meta_root) as [E|_]; [|reflexivity].
+    now apply (ro_meta r Hok) in E. }
+  unfold data_leaves. split.
+  - pose proof (walk_once (cl_tree (sb_client sb')) S3) as Hnd.
+    clear -Hnd. induction (walk (cl_tree (sb_client sb'))) as [|x l IH]; cbn; [constructor|].
+    inversion Hnd as [|? ? Hni Hnd']; subst. destruct (negb (is_meta_leaf (fst x))); cbn; [|auto].
+    constructor; [|auto]. intros Hin. apply Hni. apply in_map_iff in Hin as (y & E & Hy).
+    apply filter_In in Hy as [Hy _]. apply in_map_iff. eauto.
+  - intros p sc. rewrite filter_In, (walk_exact _ p sc S3). cbn [fst]. split.
+    + intros [Hl _]. now apply Hlk.
+    + intros Hx. apply Hlk in Hx. split; [assumption|]. now rewrite (Hnm _ _ Hx).
+Qed.
+
+
+Variable s : list item.                    (* the subscribed target's stream *)
+Hypothesis s_good : Forall item_good s.
+Hypothesis s_ts : ts_increasing None s = true.
+
+Definition last_ts (c : list item) : option Z :=
+  fold_left (fun l it => match it with IUpd n => Some (n_ts n) | ISync => l end) c None.
+
+Inductive rinv (rs : run_state) : Prop :=
+| Build_rinv (ri_c ri_rem : list item)
+    (ri_split : s = ri_c ++ ri_rem)
+    (ri_streams : rn_streams rs = [(name, ri_rem)])
+    (ri_pinv : pinv (rn_st rs) (tf_run ri_c))
+    (ri_bound : bound_opt (tf_run ri_c) (last_ts ri_c))
+    (ri_ts : ts_increasing (last_ts ri_c) ri_rem = true)
+    (ri_good : Forall item_good ri_rem)
+    (ri_sub : (rn_subres rs = None /\ ps_sub (rn_st rs) = None)
+              \/ (rn_subres rs = Some SubOk /\ ps_sub (rn_st rs) <> None)).
+
+Lemma sub_none_iff o : sub_none o = true <-> o = None.
+Proof. destruct o; cbn; split; congruence. Qed.
+
+Lemma do_subscribe_rinv rs : rinv rs -> rinv (do_subscribe rs cq).
+Proof.
+  intros [c rem H1 H2 H3 H4 H5 H6 H7]. unfold do_subscribe.
+  destruct H7 as [[Hr Hs]|[Hr Hs]]; rewrite Hr.
+  - destruct (subscribe_pinv _ _ H3 Hs) as (st' & E & Hp & Hne). rewrite E.
+    econstructor; cbn [rn_st rn_streams rn_subres]; eauto.
+  - econstructor; eauto.
+Qed.
+
+Lemma do_action_rinv rs a : rinv rs -> rinv (do_action cq rs a).
+Proof.
+  intros Hrs. destruct a as [n'| |]; cbn [do_action].
+  - destruct Hrs as [c rem H1 H2 H3 H4 H5 H6 H7]. rewrite H2. cbn [assoc fst snd].
+    destruct (String.eqb_spec n' name) as [->|Hn]; [|econstructor; eauto].
+    destruct rem as [|it rest]; [econstructor; eauto|].
+    inversion H6 as [|? ? Hg1 Hg2]; subst. destruct (ts_increasing_cons _ _ _ H5) as [Ht1 Ht2].
+    destruct (ingest_own _ _ it _ H3 Hg1 H4 Ht1) as [Hp' Hb'].
+    apply (Build_rinv _ (c ++ [it]) rest); cbn [rn_st rn_streams rn_subres].
+    + now rewrite <- app_assoc.
+    + cbn. now rewrite String.eqb_refl.
+    + unfold tf_run. rewrite fold_left_app. exact Hp'.
+    + unfold tf_run, last_ts. rewrite !fold_left_app. exact Hb'.
+    + unfold last_ts. rewrite fold_left_app. exact Ht2.
+    + assumption.
+    + destruct H7 as [[Hr Hs]|[Hr Hs]]; [left|right]; (split; [assumption|]).
+      * apply sub_none_iff. rewrite ingest_sub_none. now apply sub_none_iff.
+      * intros E. apply sub_none_iff in E. rewrite ingest_sub_none in E. apply sub_none_iff in E. contradiction.
+  - destruct Hrs as [c rem H1 H2 H3 H4 H5 H6 H7].
+    econstructor; cbn [rn_st rn_streams rn_subres]; eauto using send_pinv.
+    assert (Hsn : sub_none (ps_sub (send_one (rn_st rs))) = sub_none (ps_sub (rn_st rs))).
+    { unfold send_one. destruct (ps_sub (rn_st rs)) as [sb|] eqn:Hs; [|now rewrite Hs].
+      destruct (sb_queue sb); [now rewrite Hs|reflexivity]. }
+    destruct H7 as [[Hr Hs]|[Hr Hs]]; [left|right]; (split; [assumption|]).
+    + apply sub_none_iff. rewrite Hsn. now apply sub_none_iff.
+    + intros E. apply sub_none_iff in E. rewrite Hsn in E. apply sub_none_iff in E. contradiction.
+  - now apply do_subscribe_rinv.
+Qed.
+
+(** the client's leaves at quiescence, in terms of the cache-order replay *)
+Lemma relay_tf cfg sched :
+  validate cfg = true -> In name (keys (cf_targets cfg)) ->
+  exists l, pipeline cfg [(name, s)] cq sched = VLeaves l /\
+    NoDup (map fst l) /\
+    forall p sc, In (p, sc) l <->
+      exists k, p = name :: k /\ under k = true /\ decode (tf_run s k) = Some sc.
+Proof.
+  intros Hv Hin. unfold pipeline. pose proof (collector_start_spec cfg) as Hcs.
+  destruct (collector_start cfg) as [[managed cached]|]; [|congruence].
+  destruct Hcs as (_ & Hkm & Hc & _). subst cached.
+  set (rs0 := {| rn_st := initial (keys (cf_targets cfg));
+                 rn_streams := managed_streams (keys managed) [(name, s)]; rn_subres := None |}).
+  assert (H0 : rinv rs0).
+  { apply (Build_rinv _ [] s); unfold rs0; cbn [rn_st rn_streams rn_subres]; auto.
+    - unfold managed_streams. cbn [filter fst]. rewrite Hkm.
+      assert (E : existsb (String.eqb name) (keys (cf_targets cfg)) = true).
+      { apply existsb_exists. exists name. split; [assumption|apply String.eqb_refl]. }
+      now rewrite E.
+    - split; [reflexivity|]. exists None. cbn [initial ps_cache ps_heap ps_gen ps_sub]. split.
+      + clear -Hin. induction (keys (cf_targets cfg)) as [|a l IH]; [contradiction|]. cbn.
+        destruct (String.eqb_spec name a); [reflexivity|]. destruct Hin; [congruence|auto].
+      + constructor; cbn; auto; try discriminate.
+    - cbn. reflexivity. }
+  assert (Hall : forall acts rs, rinv rs -> rinv (fold_left (do_action cq) acts rs)).
+  { induction acts as [|a acts IH]; intros rs Hrs; cbn [fold_left]; [assumption|].
+    apply IH. now apply do_action_rinv. }
+  specialize (Hall sched rs0 H0). set (rs1 := fold_left (do_action cq) sched rs0) in *.
+  destruct Hall as [c rem H1 H2 H3 H4 H5 H6 H7].
+  (* quiescence *)
+  unfold quiesce. rewrite H2. unfold ingest_rest. cbn [fold_left fst snd].
+  pose proof (ingest_all rem _ _ _ H3 H6 H4 H5) as Hp.
+  assert (Htf : fold_left tf_item rem (tf_run c) = tf_run s) by (unfold tf_run; now rewrite H1, fold_left_app).
+  rewrite Htf in Hp.
+  set (st1 := fold_left (fun st it => ingest st name it) rem (rn_st rs1)) in *.
+  assert (Hsn : sub_none (ps_sub st1) = sub_none (ps_sub (rn_st rs1))).
+  { unfold st1. clear. generalize (rn_st rs1). induction rem as [|it rem0 IH]; intros st; cbn [fold_left]; [reflexivity|].
+    now rewrite IH, ingest_sub_none. }
+  apply (finish_view st1 (rn_subres rs1) (tf_run s) Hp).
+  destruct H7 as [[Hr Hs]|[Hr Hs]]; [left|right]; (split; [assumption|]).
+  - apply sub_none_iff. rewrite Hsn. now apply sub_none_iff.
+  - intros E. apply (proj2 (sub_none_iff _)) in E. rewrite Hsn in E. apply sub_none_iff in E. contradiction.
+Qed.
+
+End Relay.
+
+(** * The cache-order replay is the gNMI replay *)
+
+Fixpoint flook (f : tstate) (k : path) : option tv :=
+  match f with
+  | [] => None
+  | (k', v) :: f' => if path_eqb k k' then Some v else flook f' k
+  end.
+
+Lemma flook_filter (f : tstate) (h : path -> bool) k :
+  flook (filter (fun kv => h (fst kv)) f) k = if h k then flook f k else None.
+Proof.
+  induction f as [|[k' v] f IH]; cbn; [now destruct (h k)|].
+  destruct (h k') eqn:Hk'; cbn.
+  - destruct (path_eqb_spec k k') as [->|_]; [now rewrite Hk'|apply IH].
+  - rewrite IH. destruct (path_eqb_spec k k') as [->|_]; [now rewrite Hk'|reflexivity].
+Qed.
+
+Lemma flook_tdel f d k : flook (tdel f d) k = if qmatch d k then None else flook f k.
+Proof.
+  unfold tdel. rewrite (flook_filter f (fun k => negb (qmatch d k))). now destruct (qmatch d k).
+Qed.
+
+Lemma flook_tset f k' v k : flook (tset f k' v) k = if path_eqb k k' then Some v else flook f k.
+Proof.
+  unfold tset. cbn. destruct (path_eqb_spec k k') as [->|Hn]; [reflexivity|].
+  rewrite (flook_filter f (fun k0 => negb (path_eqb k0 k'))).
+  destruct (path_eqb_spec k k'); [contradiction|reflexivity].
+Qed.
+
+Lemma keys_filter_incl {A} (h : path * A -> bool) l x : In x (keys (filter h l)) -> In x (keys l).
+Proof.
+  intros Hin. apply in_map_iff in Hin as (y & <- & Hy). apply filter_In in Hy as [Hy _]. now apply in_map.
+Qed.
+
+Lemma NoDup_keys_filter {A} (h : path * A -> bool) l : NoDup (keys l) -> NoDup (keys (filter h l)).
+Proof.
+  induction l as [|x l IH]; cbn; intros Hnd; [constructor|]. inversion Hnd as [|? ? Hni Hnd']; subst.
+  destruct (h x); cbn; [|auto]. constructor; [|auto]. intros Hin. apply Hni. eapply keys_filter_incl; eauto.
+Qed.
+
+Lemma NoDup_tset f k v : NoDup (keys f) -> NoDup (keys (tset f k v)).
+Proof.
+  intros Hnd. unfold tset. cbn. constructor; [|now apply NoDup_keys_filter].
+  intros Hin. apply in_map_iff in Hin as ([k0 v0] & E & Hy). cbn in E. subst k0.
+  apply filter_In in Hy as [_ Hy]. cbn in Hy. now rewrite path_eqb_refl in Hy.
+Qed.
+
+Lemma NoDup_replay_step f it : NoDup (keys f) -> NoDup (keys (replay_step f it)).
+Proof.
+  destruct it as [|n]; cbn [replay_step]; [auto|]. intros Hnd.
+  assert (H1 : forall ds f, NoDup (keys f) ->
+     NoDup (keys (fold_left (fun f d => tdel f (tkey (n_prefix n) d)) ds f))).
+  { induction ds as [|d ds IH]; cbn; intros f0 H0; [assumption|]. apply IH. now apply NoDup_keys_filter. }
+  assert (H2 : forall us f, NoDup (keys f) ->
+     NoDup (keys (fold_left (fun f (u : gpath * tv) => tset f (tkey (n_prefix n) (fst u)) (snd u)) us f))).
+  { induction us as [|u us IH]; cbn; intros f0 H0; [assumption|]. apply IH. now apply NoDup_tset. }
+  apply H2, H1, Hnd.
+Qed.
+
+Lemma NoDup_replay s : NoDup (keys (replay s)).
+Proof.
+  unfold replay. assert (H : forall s f, NoDup (keys f) -> NoDup (keys (fold_left replay_step s f))).
+  { induction s0 as [|it s0 IH]; cbn; intros f Hf; [assumption|]. apply IH. now apply NoDup_replay_step. }
+  apply H. constructor.
+Qed.
+
+Lemma flook_In f k v : NoDup (keys f) -> (flook f k = Some v <-> In (k, v) f).
+Proof.
+  induction f as [|[k' v'] f IH]; cbn; intros Hnd; [split; [discriminate|tauto]|].
+  inversion Hnd as [|? ? Hni Hnd']; subst. destruct (path_eqb_spec k k') as [->|Hn].
+  - split; [intros E; inversion E; now left|]. intros [E|Hin]; [now inversion E|].
+    exfalso. apply Hni. change k' with (fst (k', v)). now apply in_map.
+  - rewrite IH by assumption. split; [now right|]. intros [E|Hin]; [inversion E; congruence|assumption].
+Qed.
+
+Section Equiv.
+Variable name : string.
+
+Definition no_porigin (it : item) : Prop :=
+  match it with
+  | ISync => True
+  | IUpd n =>
+      item_prefix_origin it = "" ->
+      (forall u, In u (n_updates n) -> g_origin (fst u) = "") /\
+      (forall d, In d (n_deletes n) -> g_origin d = "")
+  end.
+
+Lemma skey_tkey n p :
+  (item_prefix_origin (IUpd n) = "" -> g_origin p = "") ->
+  skey (spre name n) p = tkey (n_prefix n) p.
+Proof.
+  unfold skey, tkey, spre, eff_origin, item_prefix_origin, strs_of. intros Hp.
+  destruct (n_prefix n) as [g|]; cbn [to_strings g_origin].
+  - destruct (str_nonempty (g_origin g)) eqn:E; [reflexivity|].
+    unfold str_nonempty in E. apply negb_false_iff, String.eqb_eq in E. rewrite (Hp E). reflexivity.
+  - rewrite (Hp eq_refl). reflexivity.
+Qed.
+
+(** closed forms of the folds *)
+Fixpoint upd_of (pre : option gpath) (us : list (gpath * tv)) (k : path) (dflt : option tv) : option tv :=
+  match us with
+  | [] => dflt
+  | u :: us' => upd_of pre us' k (if path_eqb k (tkey pre (fst u)) then Some (snd u) else dflt)
+  end.
+
+Lemma flook_fold_tset pre : forall us f k,
+  flook (fold_left (fun f (u : gpath * tv) => tset f (tkey pre (fst u)) (snd u)) us f) k =
+  upd_of pre us k (flook f k).
+Proof.
+  induction us as [|u us IH]; intros f k; cbn [fold_left upd_of]; [reflexivity|].
+  now rewrite IH, flook_tset.
+Qed.
+
+Definition any_del (pre : option gpath) (ds : list gpath) (k : path) : bool :=
+  existsb (fun d => qmatch (tkey pre d) k) ds.
+
+Lemma flook_fold_tdel pre : forall ds f k,
+  flook (fold_left (fun f d => tdel f (tkey pre d)) ds f) k =
+  if any_del pre ds k then None else flook f k.
+Proof.
+  induction ds as [|d ds IH]; intros f k; cbn [fold_left any_del existsb]; [reflexivity|].
+  rewrite IH, flook_tdel. fold (any_del pre ds k).
+  destruct (qmatch (tkey pre d) k), (any_del pre ds k); reflexivity.
+Qed.
+
+Fixpoint tupd_of (pre : gpath) (ts : Z) (us : list (gpath * tv)) (k : path) (dflt : option (Z * tv))
+  : option (Z * tv) :=
+  match us with
+  | [] => dflt
+  | u :: us' => tupd_of pre ts us' k (if path_eqb k (skey pre (fst u)) then Some (ts, snd u) else dflt)
+  end.
+
+Lemma tf_updates_closed pre ts : forall us TF k,
+  tf_updates TF pre ts us k = tupd_of pre ts us k (TF k).
+Proof.
+  induction us as [|u us IH]; intros TF k; cbn [tf_updates fold_left tupd_of]; [reflexivity|].
+  unfold tf_updates in IH. now rewrite IH.
+Qed.
+
+Lemma tf_deletes_closed pre ts : forall ds TF k,
+  tf_deletes TF pre ts ds k =
+  match TF k with
+  | Some (t0, v) => if existsb (fun d => qmatch (skey pre d) k) ds && (t0 <? ts) then None else Some (t0, v)
+  | None => None
+  end.
+Proof.
+  induction ds as [|d ds IH]; intros TF k; cbn [tf_deletes fold_left existsb].
+  - destruct (TF k) as [[t0 v]|]; reflexivity.
+  - unfold tf_deletes in IH. rewrite IH. unfold tfdel. destruct (TF k) as [[t0 v]|]; [|reflexivity].
+    destruct (qmatch (skey pre d) k); destruct (t0 <? ts) eqn:E; cbn [andb orb]; rewrite ?E;
+      destruct (existsb (fun d0 => qmatch (skey pre d0) k) ds); reflexivity.
+Qed.
+
+Lemma item_equiv TF F n :
+  (forall k, option_map snd (TF k) = flook F k) ->
+  (forall k t0 v, TF k = Some (t0, v) -> t0 < n_ts n) ->
+  no_porigin (IUpd n) ->
+  forall k, option_map snd (tf_item name TF (IUpd n) k) = flook (replay_step F (IUpd n)) k.
+Proof.
+  intros HR Hb Hno k. cbn [tf_item replay_step]. rewrite flook_fold_tset, flook_fold_tdel.
+  rewrite tf_deletes_closed, tf_updates_closed.
+  assert (Hku : forall u, In u (n_updates n) -> skey (spre name n) (fst u) = tkey (n_prefix n) (fst u)).
+  { intros u Hu. apply skey_tkey. intros E. now apply (proj1 (Hno E)). }
+  assert (Hkd : existsb (fun d => qmatch (skey (spre name n) d) k) (n_deletes n) = any_del (n_prefix n) (n_deletes n) k).
+  { unfold any_del. assert (Hd : forall d, In d (n_deletes n) -> skey (spre name n) d = tkey (n_prefix n) d).
+    { intros d Hd. apply skey_tkey. intros E. now apply (proj2 (Hno E)). }
+    induction (n_deletes n) as [|d ds IH]; cbn [existsb]; [reflexivity|].
+    rewrite Hd by now left. rewrite IH; [reflexivity|]. intros; apply Hd; now right. }
+  rewrite Hkd. set (anyD := any_del (n_prefix n) (n_deletes n) k).
+  (* joint induction over the updates *)
+  assert (J : forall us a b,
+     (forall u, In u us -> skey (spre name n) (fst u) = tkey (n_prefix n) (fst u)) ->
+     ((exists v, a = Some (n_ts n, v) /\ b = Some v)
+      \/ (exists t0 v, a = Some (t0, v) /\ t0 < n_ts n /\ b = if anyD then None else Some v)
+      \/ (a = None /\ b = None)) ->
+     option_map snd (match tupd_of (spre name n) (n_ts n) us k a with
+                     | Some (t0, v) => if anyD && (t0 <? n_ts n) then None else Some (t0, v)
+                     | None => None
+                     end) = upd_of (n_prefix n) us k b).
+  { induction us as [|u us IH]; intros a b Hk Hrel; cbn [tupd_of upd_of].
+    - destruct Hrel as [(v & -> & ->)|[(t0 & v & -> & Hlt & ->)|[-> ->]]].
+      + rewrite Z.ltb_irrefl, andb_false_r. reflexivity.
+      + apply Z.ltb_lt in Hlt. rewrite Hlt, andb_true_r. now destruct anyD.
+      + reflexivity.
+    - apply IH; [intros; apply Hk; now right|]. rewrite (Hk u (or_introl eq_refl)).
+      destruct (path_eqb k (tkey (n_prefix n) (fst u))); [left; eauto|assumption]. }
+  apply J; [assumption|]. specialize (HR k). destruct (TF k) as [[t0 v]|] eqn:E; cbn in HR.
+  - right. left. exists t0, v. split; [reflexivity|]. split; [eapply Hb; eauto|]. now rewrite <- HR.
+  - right. right. split; [reflexivity|]. now rewrite <- HR; destruct anyD.
+Qed.
+
+Lemma run_equiv : forall rem c F last,
+  (forall k, option_map snd (tf_run name c k) = flook F k) ->
+  (match last with Some t => forall k t0 v, tf_run name c k = Some (t0, v) -> t0 <= t
+                 | None => forall k, tf_run name c k = None end) ->
+  ts_increasing last rem = true -> Forall no_porigin rem ->
+  forall k, option_map snd (tf_run name (c ++ rem) k) = flook (fold_left replay_step rem F) k.
+Proof.
+  induction rem as [|it rem IH]; intros c F last HR Hb Hts Hno k; cbn [fold_left].
+  - now rewrite app_nil_r.
+  - change (c ++ it :: rem) with (c ++ [it] ++ rem). rewrite app_assoc.
+    inversion Hno as [|? ? Hn1 Hn2]; subst.
+    destruct it as [|n].
+    + apply (IH (c ++ [ISync]) F last); auto; unfold tf_run in *; rewrite fold_left_app; cbn; auto.
+    + cbn in Hts. apply andb_true_iff in Hts as [Hlt Hts].
+      assert (Hb' : forall k t0 v, tf_run name c k = Some (t0, v) -> t0 < n_ts n).
+      { intros k0 t0 v E. destruct last as [t|].
+        - apply Z.ltb_lt in Hlt. specialize (Hb _ _ _ E). lia.
+        - now rewrite Hb in E. }
+      apply (IH (c ++ [IUpd n]) (replay_step F (IUpd n)) (Some (n_ts n))); auto.
+      * intros k0. unfold tf_run. rewrite fold_left_app. cbn [fold_left]. now apply item_equiv.
+      * intros k0 t0 v. unfold tf_run. rewrite fold_left_app. cbn [fold_left tf_item].
+        rewrite tf_deletes_closed. fold (tf_run name c).
+        destruct (tf_updates (tf_run name c) (spre name n) (n_ts n) (n_updates n) k0) as [[t1 v1]|] eqn:E; [|discriminate].
+        destruct (_ && _); [discriminate|]. intros E'; inversion E'; subst.
+        rewrite tf_updates_closed in E. clear -E Hb'.
+        assert (G : forall us a, (forall t0 v, a = Some (t0, v) -> t0 <= n_ts n) ->
+                  tupd_of (spre name n) (n_ts n) us k0 a = Some (t0, v) -> t0 <= n_ts n).
+        { induction us as [|u us IH]; cbn; intros a Ha; [apply Ha|]. apply IH.
+          intros t2 v2. destruct (path_eqb k0 _); [intros X; inversion X; lia|apply Ha]. }
+        eapply G; [|exact E]. intros t2 v2 X. apply Hb' in X. lia.
+Qed.
+End Equiv.
+
+(** * The relay theorem for one streaming target, every schedule *)
+
+Lemma NoDup_of_keys {A B} (l : list (A * B)) : NoDup (keys l) -> NoDup l.
+Proof.
+  induction l as [|x l IH]; cbn; intros H; [constructor|]. inversion H as [|? ? Hni Hnd]; subst.
+  constructor; [|auto]. intros Hin. apply Hni. now apply in_map.
+Qed.
+
+Lemma in_stamp_paths name f p sc :
+  In (p, sc) (stamp_paths name f) <-> exists k v, In (k, v) f /\ to_scalar v = Some sc /\ p = name :: k.
+Proof.
+  unfold stamp_paths. rewrite in_flat_map. split.
+  - intros ([k v] & Hin & Hx). cbn in Hx. destruct (to_scalar v) as [s0|] eqn:E; [|contradiction].
+    destruct Hx as [Hx|[]]. inversion Hx; subst. eauto.
+  - intros (k & v & Hin & Hs & ->). exists (k, v). split; [assumption|]. cbn. rewrite Hs. now left.
+Qed.
+
+Lemma NoDup_stamp_paths name f : NoDup (keys f) -> NoDup (keys (stamp_paths name f)).
+Proof.
+  induction f as [|[k v] f IH]; cbn; intros H; [constructor|]. inversion H as [|? ? Hni Hnd]; subst.
+  destruct (to_scalar v) as [s0|]; cbn; [|auto]. constructor; [|auto].
+  intros Hin. apply in_map_iff in Hin as ([p sc] & E & Hp). cbn in E. subst p.
+  apply in_stamp_paths in Hp as (k' & v' & Hin' & _ & E). inversion E; subst k'.
+  apply Hni. change k with (fst (k, v')). now apply in_map.
+Qed.
+
+Theorem relay_single (name : string) (Keys : path -> Prop) (Vals : tv -> Prop) (Q Qr : path)
+    (cq : cquery) (s : list item) (cfg : config) (sched : list action) :
+  (forall a b : path, Keys a -> Keys b -> strict_prefix a b = false) ->
+  (forall a : path, Keys a -> glob_free a = true) ->
+  (forall v : tv, Vals v -> to_scalar v <> None) ->
+  (forall a b : tv, Vals a -> Vals b -> tv_equal a b = true -> to_scalar a = to_scalar b) ->
+  Q = name :: Qr -> glob_free Q = true ->
+  (forall k : path, Keys k -> strict_prefix (name :: k) Q = false) ->
+  name <> "" ->
+  sub_query cq = Q -> g_target (cq_prefix cq) = name ->
+  complete_path (cq_prefix cq) (cq_path cq) = Some Qr ->
+  Forall (item_good name Keys Vals) s -> Forall no_porigin s -> ts_increasing None s = true ->
+  validate cfg = true -> In name (keys (cf_targets cfg)) ->
+  exists l, pipeline cfg [(name, s)] cq sched = VLeaves l /\
+            Permutation l (selects Q (stamp_paths name (replay s))).
+Proof.
+  intros K1 K2 V1 V2 HQ HQg HQa Hne Hq Ht Hc Hgood Hno Hts Hv Hin.
+  destruct (relay_tf name Keys Vals Q Qr K1 K2 V1 V2 HQ HQg HQa Hne cq Hq Ht Hc s Hgood Hts cfg sched Hv Hin)
+    as (l & Hp & Hnd & Hl).
+  exists l. split; [assumption|].
+  pose proof (NoDup_replay s) as HndF.
+  assert (Heq : forall k, option_map snd (tf_run name s k) = flook (replay s) k).
+  { intros k. apply (run_equiv name s [] [] None); auto. }
+  apply NoDup_Permutation.
+  - now apply NoDup_of_keys.
+  - apply NoDup_of_keys. unfold selects. apply NoDup_keys_filter. now apply NoDup_stamp_paths.
+  - intros [p sc]. rewrite Hl. unfold selects. rewrite filter_In. cbn [fst]. rewrite in_stamp_paths. split.
+    + intros (k & -> & Hu & Hd). split; [|exact Hu]. specialize (Heq k).
+      destruct (tf_run name s k) as [[t0 v]|]; [|discriminate]. cbn in Heq, Hd.
+      exists k, v. split; [apply flook_In; auto|auto].
+    + intros [(k & v & Hkv & Hs & ->) Hu]. exists k. split; [reflexivity|]. split; [exact Hu|].
+      apply (flook_In _ _ _ HndF) in Hkv. specialize (Heq k). rewrite Hkv in Heq.
+      destruct (tf_run name s k) as [[t0 v0]|]; [|discriminate]. cbn in Heq. inversion Heq; subst. exact Hs.
+Qed.
+
+(** * Several targets: what one target's messages do to the others *)
+
+Definition owner (r : leafrec) : string := g_target (lr_prefix r).
+
+Definition tree_own (n : string) (T : tree nat) (H : heap) (gen : nat) : Prop :=
+  forall k g, lookup T k = Some g -> (g < gen)%nat /\ exists r, hget H g = Some r /\ owner r = n.
+
+Definition heap_bound (H : heap) (gen : nat) : Prop := forall g r, hget H g = Some r -> (g < gen)%nat.
+
+(** [H'] differs from [H] only at objects that were unallocated or owned by
+    [n], and what it holds there is owned by [n] *)
+Definition heap_delta (n : string) (H H' : heap) : Prop :=
+  forall g, hget H' g = hget H g \/
+            ((hget H g = None \/ exists r0, hget H g = Some r0 /\ owner r0 = n) /\
+             exists r1, hget H' g = Some r1 /\ owner r1 = n).
+
+Lemma heap_delta_refl n H : heap_delta n H H.
+Proof. intros g. now left. Qed.
+
+Lemma heap_delta_trans n H1 H2 H3 : heap_delta n H1 H2 -> heap_delta n H2 H3 -> heap_delta n H1 H3.
+Proof.
+  intros A B g. destruct (B g) as [E|[Hold Hnew]].
+  - rewrite E. apply A.
+  - right. split; [|assumption]. destruct (A g) as [E|[Hold' (r1 & Hr1 & Ho1)]].
+    + now rewrite <- E.
+    + assumption.
+Qed.
+
+Lemma heap_delta_hset n H g r :
+  owner r = n -> (hget H g = None \/ exists r0, hget H g = Some r0 /\ owner r0 = n) ->
+  heap_delta n H (hset H g r).
+Proof.
+  intros Ho Hold g'. rewrite hget_hset. destruct (Nat.eqb_spec g' g) as [->|_]; [|now left].
+  right. split; [assumption|eauto].
+Qed.
+
+Lemma tree_own_delta n n' T H H' gen gen' :
+  tree_own n T H gen -> heap_delta n' H H' -> n <> n' -> (gen <= gen')%nat -> tree_own n T H' gen'.
+Proof.
+  intros Ht Hd Hn Hg k g Hl. destruct (Ht _ _ Hl) as (Hlt & r & Hr & Ho). split; [lia|].
+  destruct (Hd g) as [E|[[Hnone|(r0 & Hr0 & Ho0)] _]].
+  - exists r. now rewrite E.
+  - congruence.
+  - rewrite Hr in Hr0. inversion Hr0; subst. congruence.
+Qed.
+
+(** the generic effect of one update on the working state of target [n] *)
+Record wgen (n : string) (w : wstate) : Prop := {
+  wg_fault : w_fault w = None;
+  wg_wf : wf_tree (w_tree w);
+  wg_own : tree_own n (w_tree w) (w_heap w) (w_gen w);
+  wg_bound : heap_bound (w_heap w) (w_gen w)
+}.
+
+Definition sub_frame (n : string) (s s' : option subscriber) : Prop :=
+  forall sb, s = Some sb ->
+    (forall p, mmatch (sb_query sb) (n :: p) = false) -> s' = s.
+
+Lemma sub_frame_refl n s : sub_frame n s s.
+Proof. intros sb _ _. reflexivity. Qed.
+
+Lemma sub_frame_trans n s1 s2 s3 : sub_frame n s1 s2 -> sub_frame n s2 s3 -> sub_frame n s1 s3.
+Proof.
+  intros A B sb Hs Hm. specialize (A sb Hs Hm). subst s2. now apply (B sb Hs Hm).
+Qed.
+
+Lemma full_path_owner r :
+  owner r <> "" -> exists p, full_path r = owner r :: p.
+Proof.
+  intros Hn. unfold full_path, owner in *. unfold to_strings_gp at 1.
+  rewrite (str_nonempty_true _ Hn). cbn. eauto.
+Qed.
+
+Lemma upd_generic n w r :
+  wgen n w -> owner r = n -> n <> "" -> g_origin (lr_prefix r) <> "" -> g_origin (lr_prefix r) <> meta_root ->
+  wgen n (cache_update_one w r) /\
+  heap_delta n (w_heap w) (w_heap (cache_update_one w r)) /\
+  (w_gen w <= w_gen (cache_update_one w r))%nat /\
+  sub_frame n (w_sub w) (w_sub (cache_update_one w r)).
+Proof.
+  intros [Wf Wwf Wo Wb] Ho Hn Hor Hm. unfold cache_update_one. rewrite Wf.
+  assert (Hj : exists tl, join_prefix_and_path (lr_prefix r) (lr_path r) = Some (g_origin (lr_prefix r) :: tl)).
+  { unfold join_prefix_and_path. unfold to_strings_gp at 1. unfold owner in Ho. rewrite Ho.
+    rewrite (str_nonempty_true _ Hn), (str_nonempty_true _ Hor). cbn. eauto. }
+  destruct Hj as (tl & ->). destruct (String.eqb_spec (g_origin (lr_prefix r)) meta_root) as [E|_]; [contradiction|].
+  set (k := g_origin (lr_prefix r) :: tl).
+  assert (Hsame : wgen n w /\ heap_delta n (w_heap w) (w_heap w) /\ (w_gen w <= w_gen w)%nat /\ sub_frame n (w_sub w) (w_sub w)).
+  { split; [constructor; assumption|]. split; [apply heap_delta_refl|]. split; [lia|apply sub_frame_refl]. }
+  assert (Hfeed : forall g, sub_frame n (w_sub w) (feed_leaf (w_sub w) g (full_path r))).
+  { intros g sb Hs Hmm. rewrite Hs. cbn [feed_leaf]. destruct (full_path_owner r) as (p & Hp); [congruence|].
+    rewrite Hp, Ho, Hmm. reflexivity. }
+  destruct (get (w_tree w) k) as [[g|cs]|] eqn:Hget; [| exact Hsame |].
+  - apply get_leaf_exact in Hget. destruct (Wo _ _ Hget) as (Hlt & old & Hold & Hoo). rewrite Hold.
+    destruct (lr_ts r <? lr_ts old); [exact Hsame|].
+    destruct ((lr_ts r =? lr_ts old) && leafrec_eqb old r); [exact Hsame|].
+    assert (Hd : heap_delta n (w_heap w) (hset (w_heap w) g r)) by (apply heap_delta_hset; eauto).
+    assert (Hw : forall s', wgen n {| w_tree := w_tree w; w_heap := hset (w_heap w) g r; w_gen := w_gen w;
+                                       w_sub := s'; w_fault := None |}).
+    { intros s'. constructor; cbn [w_fault w_tree w_heap w_gen]; auto.
+      - intros k0 g0 Hl. destruct (Wo _ _ Hl) as (Hlt0 & r0 & Hr0 & Ho0). split; [assumption|].
+        rewrite hget_hset. destruct (Nat.eqb_spec g0 g); eauto.
+      - intros g0 r0. rewrite hget_hset. destruct (Nat.eqb_spec g0 g) as [->|_]; [auto|apply Wb]. }
+    destruct (tv_equal (lr_val old) (lr_val r)); cbn [w_heap w_gen w_sub];
+      (split; [apply Hw|]); (split; [assumption|]); (split; [lia|]); [apply sub_frame_refl|apply Hfeed].
+  - destruct (add (w_tree w) k (w_gen w)) as [t'|] eqn:Hadd; [|exact Hsame].
+    destruct (add_spec _ _ _ _ Wwf Hadd) as [Hwf' Hl']. cbn [w_heap w_gen w_sub].
+    assert (Hfresh : hget (w_heap w) (w_gen w) = None).
+    { destruct (hget (w_heap w) (w_gen w)) as [r0|] eqn:E; [|reflexivity]. apply Wb in E. lia. }
+    split; [|split; [apply heap_delta_hset; auto|split; [lia|apply Hfeed]]].
+    constructor; cbn [w_fault w_tree w_heap w_gen]; auto.
+    + intros k0 g0. rewrite Hl'. rewrite hget_hset. destruct (path_eqb k0 k).
+      * intros E; inversion E; subst g0. split; [lia|]. rewrite Nat.eqb_refl. eauto.
+      * intros Hl. destruct (Wo _ _ Hl) as (Hlt0 & r0 & Hr0 & Ho0). split; [lia|].
+        destruct (Nat.eqb_spec g0 (w_gen w)) as [->|_]; [lia|eauto].
+    + intros g0 r0. rewrite hget_hset. destruct (Nat.eqb_spec g0 (w_gen w)) as [->|_]; [lia|].
+      intros E. apply Wb in E. lia.
+Qed.
+
+Lemma del_generic n w (pre d : gpath) ts :
+  wgen n w -> g_target pre = n -> n <> "" -> g_origin pre <> "" -> g_origin pre <> meta_root ->
+  wgen n (cache_delete_one ts pre w d) /\
+  w_heap (cache_delete_one ts pre w d) = w_heap w /\
+  w_gen (cache_delete_one ts pre w d) = w_gen w /\
+  sub_frame n (w_sub w) (w_sub (cache_delete_one ts pre w d)).
+Proof.
+  intros [Wf Wwf Wo Wb] Ht Hn Hor Hm. unfold cache_delete_one. rewrite Wf.
+  assert (Hj : exists tl, join_prefix_and_path pre d = Some (g_origin pre :: tl)).
+  { unfold join_prefix_and_path. unfold to_strings_gp at 1. rewrite Ht.
+    rewrite (str_nonempty_true _ Hn), (str_nonempty_true _ Hor). cbn. eauto. }
+  destruct Hj as (tl & ->). destruct (String.eqb_spec (g_origin pre) meta_root) as [E|_]; [contradiction|].
+  set (k := g_origin pre :: tl).
+  set (cond := fun g : nat => match hget (w_heap w) g with Some r => lr_ts r <? ts | None => false end).
+  destruct (delete_spec (w_tree w) k cond Wwf) as (Hwf' & Hl' & Hrem & _).
+  cbn [w_heap w_gen w_sub]. split; [|split; [reflexivity|split; [reflexivity|]]].
+  - constructor; cbn [w_fault w_tree w_heap w_gen]; auto.
+    intros k0 g0. rewrite Hl'. unfold sel. destruct (lookup (w_tree w) k0) as [g1|] eqn:E; [|discriminate].
+    destruct (qmatch k k0 && cond g1); [discriminate|]. intros E'; inversion E' as [E2]. rewrite <- E2. exact (Wo _ _ E).
+  - intros sb Hs Hmm. rewrite Hs.
+    assert (G : forall l, (forall kg, In kg l -> lookup (w_tree w) (fst kg) = Some (snd kg)) ->
+       fold_left (fun s pg => match hget (w_heap w) (snd pg) with
+                              | Some old => feed_del s (to_delete old ts)
+                              | None => s end) l (Some sb) = Some sb).
+    { induction l as [|[k0 g0] l IH]; intros Hl; cbn [fold_left]; [reflexivity|].
+      destruct (Wo _ _ (Hl (k0, g0) (or_introl eq_refl))) as (_ & old & Hold & Hoo). cbn [snd fst] in *. rewrite Hold.
+      assert (E : feed_del (Some sb) (to_delete old ts) = Some sb).
+      { cbn [feed_del]. unfold to_delete at 1 2 3. cbn [d_target d_origin d_path].
+        unfold owner in Hoo. rewrite Hoo, (str_nonempty_true _ Hn). cbn [app]. now rewrite Hmm. }
+      rewrite E. apply IH. intros; apply Hl; now right. }
+    apply G. intros [k0 g0] Hin. apply Hrem in Hin. cbn. apply Hin.
+Qed.
+
+Lemma noti_generic n w nt pre :
+  wgen n w -> g_target pre = n -> n <> "" -> g_origin pre <> "" -> g_origin pre <> meta_root ->
+  wgen n (target_gnmi_update w nt pre) /\
+  heap_delta n (w_heap w) (w_heap (target_gnmi_update w nt pre)) /\
+  (w_gen w <= w_gen (target_gnmi_update w nt pre))%nat /\
+  sub_frame n (w_sub w) (w_sub (target_gnmi_update w nt pre)).
+Proof.
+  intros Hw Ht Hn Ho Hm. unfold target_gnmi_update.
+  assert (Hu : forall us w0, wgen n w0 ->
+     let w1 := fold_left (fun w u => cache_update_one w {| lr_ts := n_ts nt; lr_prefix := pre; lr_path := fst u; lr_val := snd u |}) us w0 in
+     wgen n w1 /\ heap_delta n (w_heap w0) (w_heap w1) /\ (w_gen w0 <= w_gen w1)%nat /\ sub_frame n (w_sub w0) (w_sub w1)).
+  { induction us as [|u us IH]; intros w0 H0; cbn [fold_left].
+    - split; [assumption|]. split; [apply heap_delta_refl|]. split; [lia|apply sub_frame_refl].
+    - destruct (upd_generic n w0 {| lr_ts := n_ts nt; lr_prefix := pre; lr_path := fst u; lr_val := snd u |} H0 Ht Hn Ho Hm)
+        as (A1 & A2 & A3 & A4).
+      destruct (IH _ A1) as (B1 & B2 & B3 & B4). cbn zeta in *.
+      split; [assumption|]. split; [eapply heap_delta_trans; eauto|]. split; [lia|eapply sub_frame_trans; eauto]. }
+  assert (Hd : forall ds w0, wgen n w0 ->
+     let w1 := fold_left (cache_delete_one (n_ts nt) pre) ds w0 in
+     wgen n w1 /\ w_heap w1 = w_heap w0 /\ w_gen w1 = w_gen w0 /\ sub_frame n (w_sub w0) (w_sub w1)).
+  { induction ds as [|d ds IH]; intros w0 H0; cbn [fold_left].
+    - split; [assumption|]. split; [reflexivity|]. split; [reflexivity|apply sub_frame_refl].
+    - destruct (del_generic n w0 pre d (n_ts nt) H0 Ht Hn Ho Hm) as (A1 & A2 & A3 & A4).
+      destruct (IH _ A1) as (B1 & B2 & B3 & B4). cbn zeta in *.
+      split; [assumption|]. split; [congruence|]. split; [congruence|eapply sub_frame_trans; eauto]. }
+  destruct (Hu (n_updates nt) w Hw) as (A1 & A2 & A3 & A4). cbn zeta in *.
+  destruct (Hd (n_deletes nt) _ A1) as (B1 & B2 & B3 & B4). cbn zeta in *.
+  split; [assumption|]. rewrite B2, B3. split; [assumption|]. split; [assumption|eapply sub_frame_trans; eauto].
+Qed.
+
+Record ginv (st : pstate) : Prop := {
+  gi_fault : ps_fault st = None;
+  gi_keys : NoDup (keys (ps_cache st));
+  gi_names : forall n, In n (keys (ps_cache st)) -> n <> "" /\ is_glob n = false;
+  gi_trees : forall n T, assoc n (ps_cache st) = Some T -> wf_tree T /\ tree_own n T (ps_heap st) (ps_gen st);
+  gi_bound : heap_bound (ps_heap st) (ps_gen st)
+}.
+
+Definition item_nometa (n : string) (it : item) : Prop :=
+  match it with IUpd nt => g_origin (spre n nt) <> meta_root | ISync => True end.
+
+Lemma ingest_ginv st n it :
+  ginv st -> item_nometa n it ->
+  ginv (ingest st n it) /\
+  heap_delta n (ps_heap st) (ps_heap (ingest st n it)) /\
+  (ps_gen st <= ps_gen (ingest st n it))%nat /\
+  sub_frame n (ps_sub st) (ps_sub (ingest st n it)) /\
+  forall n3, n3 <> n -> assoc n3 (ps_cache (ingest st n it)) = assoc n3 (ps_cache st).
+Proof.
+  intros [G1 G2 G3 G4 G5] Hm. unfold ingest. rewrite G1.
+  assert (Hsame : ginv st /\ heap_delta n (ps_heap st) (ps_heap st) /\ (ps_gen st <= ps_gen st)%nat /\
+                  sub_frame n (ps_sub st) (ps_sub st) /\
+                  forall n3, n3 <> n -> assoc n3 (ps_cache st) = assoc n3 (ps_cache st)).
+  { split; [constructor; assumption|]. split; [apply heap_delta_refl|]. split; [lia|].
+    split; [apply sub_frame_refl|reflexivity]. }
+  destruct it as [|nt]; [exact Hsame|]. rewrite (stamp_spre n nt). cbn [n_prefix].
+  destruct (assoc n (ps_cache st)) as [t|] eqn:Ht; [|exact Hsame].
+  destruct (G3 n (assoc_Some_key _ _ _ Ht)) as [Hne Hng]. destruct (G4 _ _ Ht) as [Hwf Hown].
+  set (w0 := {| w_tree := t; w_heap := ps_heap st; w_gen := ps_gen st; w_sub := ps_sub st; w_fault := None |}).
+  assert (Hw0 : wgen n w0) by (constructor; unfold w0; cbn; auto).
+  destruct (noti_generic n w0
+     {| n_ts := n_ts nt; n_prefix := Some (spre n nt); n_updates := n_updates nt; n_deletes := n_deletes nt |}
+     (spre n nt) Hw0 (spre_target n nt) Hne (spre_origin n nt) Hm) as ([W1 W2 W3 W4] & Hd & Hg & Hs).
+  cbn [ps_cache ps_heap ps_gen ps_sub]. cbn [w_heap w_gen w_sub] in Hd, Hg, Hs.
+  split; [|split; [assumption|split; [assumption|split; [assumption|]]]].
+  - constructor; cbn [ps_fault ps_cache ps_heap ps_gen]; auto.
+    + rewrite keys_aset_in by (eapply assoc_Some_key; eauto). assumption.
+    + intros n0. rewrite keys_aset_in by (eapply assoc_Some_key; eauto). apply G3.
+    + intros n0 T0. rewrite assoc_aset. destruct (String.eqb_spec n0 n) as [->|Hn0].
+      * intros E; inversion E; subst. auto.
+      * intros E. destruct (G4 _ _ E) as [Hwf0 Hown0]. split; [assumption|].
+        eapply tree_own_delta; eauto.
+  - intros n3 Hn3. rewrite assoc_aset. destruct (String.eqb_spec n3 n); [contradiction|reflexivity].
+Qed.
+
+Section Multi.
+Variable name : string.
+Variable Keys : path -> Prop.
+Variable Vals : tv -> Prop.
+Variable Q Qr : path.
+Hypothesis Keys_pf : forall a b, Keys a -> Keys b -> strict_prefix a b = false.
+Hypothesis Keys_gf : forall a, Keys a -> glob_free a = true.
+Hypothesis Vals_dec : forall v, Vals v -> to_scalar v <> None.
+Hypothesis Vals_canon : forall a b, Vals a -> Vals b -> tv_equal a b = true -> to_scalar a = to_scalar b.
+Hypothesis Q_eq : Q = name :: Qr.
+Hypothesis Q_gf : glob_free Q = true.
+Hypothesis Q_above : forall k, Keys k -> strict_prefix (name :: k) Q = false.
+Hypothesis name_ne : name <> "".
+Variable cq : cquery.
+Hypothesis cq_query : sub_query cq = Q.
+Hypothesis cq_target : g_target (cq_prefix cq) = name.
+Hypothesis cq_complete : complete_path (cq_prefix cq) (cq_path cq) = Some Qr.
+
+Local Notation ninv' := (ninv name Keys Vals Q).
+Local Notation pinv' := (pinv name Keys Vals Q).
+Local Notation sub_inv' := (sub_inv name Keys Vals Q).
+
+(** messages of another target leave the subscribed target's part of the state alone *)
+Lemma ninv_frame n' T H H' gen gen' sub TF :
+  ninv' T H gen sub TF -> heap_delta n' H H' -> n' <> name -> (gen <= gen')%nat -> heap_bound H' gen' ->
+  ninv' T H' gen' sub TF.
+Proof.
+  intros [N1 N2 N3 N4 N5] Hd Hn Hg Hb.
+  assert (Hsame : forall g r, hget H g = Some r -> rec_ok name Keys Vals r -> hget H' g = Some r).
+  { intros g r Hr Hok. destruct (Hd g) as [E|[[Hnone|(r0 & Hr0 & Ho0)] _]]; [congruence|congruence|].
+    rewrite Hr in Hr0. inversion Hr0; subst r0. exfalso. apply Hn. rewrite <- Ho0. apply Hok. }
+  constructor; auto.
+  - intros k g Hl. destruct (N2 _ _ Hl) as (Hlt & r & Hr & Hok & Hrest). split; [lia|]. exists r. split; [|auto].
+    now apply Hsame.
+  - destruct sub as [sb|]; [|exact I]. destruct N5 as [S1 S2 S3 S4 S5 S6 S7].
+    assert (Hconc : forall p i, In i (sb_queue sb) -> concerns H' p i = concerns H p i).
+    { intros p i Hi. specialize (S5 i Hi). destruct i as [g|d|]; cbn [concerns]; try reflexivity.
+      destruct S5 as (r & Hr & Hok & _). now rewrite Hr, (Hsame _ _ Hr Hok). }
+    assert (Hlast : forall p, last_conc H' p (sb_queue sb) = last_conc H p (sb_queue sb))
+      by (intros; apply last_conc_ext; intros; now apply Hconc).
+    constructor; auto.
+    + intros i Hi. specialize (S5 i Hi). destruct i as [g|d|]; cbn [item_ok] in *; auto.
+      destruct S5 as (r & Hr & Hok & Hu). exists r. split; [now apply Hsame|auto].
+    + intros k Hk. specialize (S6 k Hk). unfold final in *. rewrite Hlast.
+      destruct (last_conc H (name :: k) (sb_queue sb)) as [[g|d|]|] eqn:El; try assumption.
+      apply last_conc_In in El as [Hi _]. destruct (S5 _ Hi) as (r & Hr & Hok & _).
+      rewrite (Hsame _ _ Hr Hok). rewrite Hr in S6. exact S6.
+    + intros k g Hl. rewrite Hlast. now apply S7.
+Qed.
+
+Lemma ingest_not_target st n it : assoc n (ps_cache st) = None -> ingest st n it = st.
+Proof.
+  intros Hn. unfold ingest. destruct (ps_fault st); [reflexivity|]. destruct it as [|nt]; [reflexivity|].
+  destruct (n_prefix (stamp n nt)); [|reflexivity]. now rewrite Hn.
+Qed.
+
+Lemma ingest_other_pinv st n' it TF :
+  n' <> name -> ginv st -> pinv' st TF -> item_nometa n' it ->
+  pinv' (ingest st n' it) TF.
+Proof.
+  intros Hn Hg Hp Hm.
+  destruct (assoc n' (ps_cache st)) as [t|] eqn:Et; [|now rewrite (ingest_not_target st n' it Et)].
+  destruct Hp as [Hf (T & HT & Hni)].
+  destruct (ingest_ginv st n' it Hg Hm) as ([G1 G2 G3 G4 G5] & Hd & Hgen & Hs & Hc).
+  split; [assumption|]. exists T. split; [rewrite Hc by congruence; assumption|].
+  assert (Hsub : ps_sub (ingest st n' it) = ps_sub st).
+  { destruct (ps_sub st) as [sb|] eqn:Esb.
+    - apply (Hs sb eq_refl). intros p. destruct Hni as [_ _ _ _ N5]. rewrite (si_query _ _ _ _ _ _ _ _ N5), Q_eq.
+      apply mmatch_other_head.
+      + apply (name_ng name Q Qr Q_eq Q_gf).
+      + apply (gi_names st Hg n' (assoc_Some_key _ _ _ Et)).
+      + congruence.
+    - apply sub_none_iff. rewrite ingest_sub_none, Esb. reflexivity. }
+  rewrite Hsub. eapply ninv_frame; eauto.
+Qed.
+
+
+Lemma ginv_same st st' :
+  ps_cache st' = ps_cache st -> ps_heap st' = ps_heap st -> ps_gen st' = ps_gen st ->
+  ps_fault st' = ps_fault st -> ginv st -> ginv st'.
+Proof.
+  intros E1 E2 E3 E4 [G1 G2 G3 G4 G5]. constructor; rewrite ?E1, ?E2, ?E3, ?E4; assumption.
+Qed.
+
+Lemma subscribe_ginv st q st' r : subscribe_stream st q = (st', r) -> ginv st -> ginv st'.
+Proof.
+  unfold subscribe_stream. destruct (String.eqb _ ""); [intros E; inversion E; subst; auto|].
+  destruct (assoc _ _); [|intros E; inversion E; subst; auto].
+  destruct (snapshot _ _); intros E; inversion E; subst; auto.
+  apply ginv_same; reflexivity.
+Qed.
+
+Lemma send_ginv st : ginv st -> ginv (send_one st).
+Proof.
+  unfold send_one. destruct (ps_sub st) as [sb|]; [|auto]. destruct (sb_queue sb); [auto|].
+  apply ginv_same; reflexivity.
+Qed.
+
+Variable s : list item.
+Hypothesis s_good : Forall (item_good name Keys Vals) s.
+Hypothesis s_ts : ts_increasing None s = true.
+
+Definition streams_ok (ss : streams) : Prop :=
+  forall n' l, In (n', l) ss -> Forall (item_nometa n') l.
+
+Inductive minv (rs : run_state) : Prop :=
+| Build_minv (c rem : list item)
+    (m_split : s = c ++ rem)
+    (m_stream : assoc name (rn_streams rs) = Some rem)
+    (m_nodup : NoDup (keys (rn_streams rs)))
+    (m_ok : streams_ok (rn_streams rs))
+    (m_pinv : pinv' (rn_st rs) (tf_run name c))
+    (m_ginv : ginv (rn_st rs))
+    (m_bound : bound_opt (tf_run name c) (last_ts c))
+    (m_ts : ts_increasing (last_ts c) rem = true)
+    (m_good : Forall (item_good name Keys Vals) rem)
+    (m_sub : (rn_subres rs = None /\ ps_sub (rn_st rs) = None)
+             \/ (rn_subres rs = Some SubOk /\ ps_sub (rn_st rs) <> None)).
+
+Lemma item_good_nometa it : item_good name Keys Vals it -> item_nometa name it.
+Proof. destruct it as [|nt]; cbn; [auto|]. now intros [H _]. Qed.
+
+Lemma sub_consistent_ingest st n it subres :
+  (subres = None /\ ps_sub st = None) \/ (subres = Some SubOk /\ ps_sub st <> None) ->
+  (subres = None /\ ps_sub (ingest st n it) = None) \/ (subres = Some SubOk /\ ps_sub (ingest st n it) <> None).
+Proof.
+  intros [[Hr Hs]|[Hr Hs]]; [left|right]; (split; [assumption|]).
+  - apply sub_none_iff. rewrite ingest_sub_none. now apply sub_none_iff.
+  - intros E. apply (proj2 (sub_none_iff _)) in E. rewrite ingest_sub_none in E. apply sub_none_iff in E. contradiction.
+Qed.
+
+Lemma streams_ok_aset ss n rest it :
+  streams_ok ss -> assoc n ss = Some (it :: rest) -> streams_ok (aset n rest ss).
+Proof.
+  intros Hok Ha n' l Hin. apply In_aset_weak in Hin as [E|Hin]; [|now apply Hok].
+  inversion E as [[E1 E2]]. apply assoc_In in Ha. specialize (Hok _ _ Ha). apply Forall_cons_iff in Hok as [_ Hok]. exact Hok.
+Qed.
+
+Lemma do_action_minv rs a : minv rs -> minv (do_action cq rs a).
+Proof.
+  intros [c rem H1 H2 Hnd Hok H3 Hg H4 H5 H6 H7]. destruct a as [n'| |]; cbn [do_action].
+  - destruct (assoc n' (rn_streams rs)) as [[|it rest]|] eqn:Ea; try (econstructor; eauto; fail).
+    assert (Hnm : item_nometa n' it).
+    { apply assoc_In in Ea. specialize (Hok _ _ Ea). now apply Forall_cons_iff in Hok as [Hok _]. }
+    destruct (ingest_ginv _ n' it Hg Hnm) as (Hg' & _).
+    destruct (String.eqb_spec n' name) as [->|Hn].
+    + rewrite H2 in Ea. inversion Ea; subst rem.
+      apply Forall_cons_iff in H6 as [Hg1 Hg2]. destruct (ts_increasing_cons _ _ _ H5) as [Ht1 Ht2].
+      destruct (ingest_own name Keys Vals Q Qr Keys_pf Keys_gf Vals_dec Vals_canon Q_eq Q_gf Q_above name_ne
+                  _ _ it _ H3 Hg1 H4 Ht1) as [Hp' Hb'].
+      apply (Build_minv _ (c ++ [it]) rest); cbn [rn_st rn_streams rn_subres].
+      * now rewrite <- app_assoc.
+      * rewrite assoc_aset. now rewrite String.eqb_refl.
+      * now apply NoDup_keys_aset.
+      * eapply streams_ok_aset; eauto.
+      * unfold tf_run. rewrite fold_left_app. exact Hp'.
+      * assumption.
+      * unfold tf_run, last_ts. rewrite !fold_left_app. exact Hb'.
+      * unfold last_ts. rewrite fold_left_app. exact Ht2.
+      * assumption.
+      * now apply sub_consistent_ingest.
+    + apply (Build_minv _ c rem); cbn [rn_st rn_streams rn_subres]; auto.
+      * rewrite assoc_aset. destruct (String.eqb_spec name n'); [congruence|assumption].
+      * now apply NoDup_keys_aset.
+      * eapply streams_ok_aset; eauto.
+      * now apply ingest_other_pinv.
+      * now apply sub_consistent_ingest.
+  - apply (Build_minv _ c rem); cbn [rn_st rn_streams rn_subres]; auto.
+    + now apply (send_pinv name Keys Vals Q Qr).
+    + now apply send_ginv.
+    + assert (Hsn : sub_none (ps_sub (send_one (rn_st rs))) = sub_none (ps_sub (rn_st rs))).
+      { unfold send_one. destruct (ps_sub (rn_st rs)) as [sb|] eqn:Hs; [|now rewrite Hs].
+        destruct (sb_queue sb); [now rewrite Hs|reflexivity]. }
+      destruct H7 as [[Hr Hs]|[Hr Hs]]; [left|right]; (split; [assumption|]).
+      * apply sub_none_iff. rewrite Hsn. now apply sub_none_iff.
+      * intros E. apply (proj2 (sub_none_iff _)) in E. rewrite Hsn in E. apply sub_none_iff in E. contradiction.
+  - unfold do_subscribe. destruct H7 as [[Hr Hs]|[Hr Hs]]; rewrite Hr.
+    + destruct (subscribe_pinv name Keys Vals Q Qr Q_eq Q_gf name_ne cq cq_query cq_target cq_complete _ _ H3 Hs)
+        as (st' & E & Hp & Hne).
+      rewrite E. apply (Build_minv _ c rem); cbn [rn_st rn_streams rn_subres]; auto.
+      eapply subscribe_ginv; eauto.
+    + apply (Build_minv _ c rem); auto.
+Qed.
+
+(** everything still in flight reaches the collector *)
+Lemma ingest_rest_minv : forall l st TF last rem,
+  NoDup (keys l) -> streams_ok l ->
+  pinv' st TF -> ginv st -> (rem = [] \/ bound_opt TF last) ->
+  (match assoc name l with Some r => r = rem | None => rem = [] end) ->
+  ts_increasing last rem = true -> Forall (item_good name Keys Vals) rem ->
+  pinv' (ingest_rest st l) (fold_left (tf_item name) rem TF) /\
+  sub_none (ps_sub (ingest_rest st l)) = sub_none (ps_sub st).
+Proof.
+  assert (Hothers : forall n' its st TF, n' <> name -> Forall (item_nometa n') its ->
+            pinv' st TF -> ginv st ->
+            pinv' (fold_left (fun st it => ingest st n' it) its st) TF /\
+            ginv (fold_left (fun st it => ingest st n' it) its st) /\
+            sub_none (ps_sub (fold_left (fun st it => ingest st n' it) its st)) = sub_none (ps_sub st)).
+  { intros n' its. induction its as [|it its IH]; intros st TF Hn Hok Hp Hg; cbn [fold_left]; [auto|].
+    apply Forall_cons_iff in Hok as [Ho1 Ho2].
+    destruct (IH (ingest st n' it) TF Hn Ho2 (ingest_other_pinv _ _ _ _ Hn Hg Hp Ho1)
+                 (proj1 (ingest_ginv _ _ _ Hg Ho1))) as (A & B & C).
+    split; [assumption|]. split; [assumption|]. now rewrite C, ingest_sub_none. }
+  assert (Hown : forall its st TF last, Forall (item_good name Keys Vals) its ->
+            pinv' st TF -> ginv st -> bound_opt TF last -> ts_increasing last its = true ->
+            pinv' (fold_left (fun st it => ingest st name it) its st) (fold_left (tf_item name) its TF) /\
+            ginv (fold_left (fun st it => ingest st name it) its st) /\
+            sub_none (ps_sub (fold_left (fun st it => ingest st name it) its st)) = sub_none (ps_sub st)).
+  { induction its as [|it its IH]; intros st TF last Hgood Hp Hg Hb Hts; cbn [fold_left]; [auto|].
+    apply Forall_cons_iff in Hgood as [Hg1 Hg2]. destruct (ts_increasing_cons _ _ _ Hts) as [Ht1 Ht2].
+    destruct (ingest_own name Keys Vals Q Qr Keys_pf Keys_gf Vals_dec Vals_canon Q_eq Q_gf Q_above name_ne
+                  _ _ it _ Hp Hg1 Hb Ht1) as [Hp' Hb'].
+    destruct (IH _ _ _ Hg2 Hp' (proj1 (ingest_ginv _ _ _ Hg (item_good_nometa _ Hg1))) Hb' Ht2) as (A & B & C).
+    split; [assumption|]. split; [assumption|]. now rewrite C, ingest_sub_none. }
+  induction l as [|[n' its] l IH]; intros st TF last rem Hnd Hok Hp Hg Hb Hrem Hts Hgood;
+    unfold ingest_rest in *; cbn [fold_left fst snd].
+  - cbn in Hrem. subst rem. cbn. auto.
+  - apply NoDup_cons_iff in Hnd as [Hni Hnd']. cbn [assoc fst snd] in Hrem.
+    assert (Hok' : streams_ok l) by (intros n2 l2 Hin; apply Hok; now right).
+    assert (Hits : Forall (item_nometa n') its) by (apply Hok; now left).
+    destruct (String.eqb_spec name n') as [<-|Hn].
+    + subst its.
+      assert (Hrun : pinv' (fold_left (fun st it => ingest st name it) rem st) (fold_left (tf_item name) rem TF) /\
+                     ginv (fold_left (fun st it => ingest st name it) rem st) /\
+                     sub_none (ps_sub (fold_left (fun st it => ingest st name it) rem st)) = sub_none (ps_sub st)).
+      { destruct Hb as [->|Hb]; [cbn; auto|]. exact (Hown rem st TF last Hgood Hp Hg Hb Hts). }
+      destruct Hrun as (A & B & C).
+      assert (Hnone : assoc name l = None) by (apply assoc_None; exact Hni).
+      destruct (IH _ _ None [] Hnd' Hok' A B (or_introl eq_refl)) as (A' & C'); auto.
+      * now rewrite Hnone.
+      * cbn in A'. split; [assumption|]. now rewrite C', C.
+    + destruct (Hothers n' its st TF (not_eq_sym Hn) Hits Hp Hg) as (A & B & C).
+      destruct (IH _ _ last rem Hnd' Hok' A B Hb Hrem Hts Hgood) as (A' & C').
+      split; [assumption|]. now rewrite C', C.
+Qed.
+
+
+Lemma assoc_filter_keys {A} (h : string -> bool) (l : list (string * A)) n :
+  assoc n (filter (fun ns => h (fst ns)) l) = if h n then assoc n l else None.
+Proof.
+  induction l as [|[k a] l IH]; cbn; [now destruct (h n)|].
+  destruct (h k) eqn:Hk; cbn.
+  - destruct (String.eqb_spec n k) as [->|_]; [now rewrite Hk|apply IH].
+  - rewrite IH. destruct (String.eqb_spec n k) as [->|_]; [now rewrite Hk|reflexivity].
+Qed.
+
+Lemma NoDup_fst_filter {A B} (h : A * B -> bool) (l : list (A * B)) :
+  NoDup (map fst l) -> NoDup (map fst (filter h l)).
+Proof.
+  induction l as [|x l IH]; cbn; intros Hnd; [constructor|]. apply NoDup_cons_iff in Hnd as [Hni Hnd].
+  destruct (h x); cbn; [|auto]. constructor; [|auto]. intros Hin. apply Hni.
+  apply in_map_iff in Hin as (y & E & Hy). apply filter_In in Hy as [Hy _]. apply in_map_iff. eauto.
+Qed.
+
+(** the client's leaves at quiescence, any number of targets, any schedule *)
+Lemma relay_multi_tf cfg ss sched :
+  validate cfg = true -> NoDup (keys (cf_targets cfg)) ->
+  (forall n, In n (keys (cf_targets cfg)) -> is_glob n = false) ->
+  In name (keys (cf_targets cfg)) ->
+  NoDup (keys ss) -> assoc name ss = Some s -> streams_ok ss ->
+  exists l, pipeline cfg ss cq sched = VLeaves l /\
+    NoDup (map fst l) /\
+    forall p sc, In (p, sc) l <->
+      exists k, p = name :: k /\ under name Q k = true /\ decode (tf_run name s k) = Some sc.
+Proof.
+  intros Hv Hndt Hng Hin Hnds Hs Hok. unfold pipeline. pose proof (collector_start_spec cfg) as Hcs.
+  destruct (collector_start cfg) as [[managed cached]|]; [|congruence].
+  destruct Hcs as (_ & Hkm & Hc & _). subst cached.
+  set (rs0 := {| rn_st := initial (keys (cf_targets cfg));
+                 rn_streams := managed_streams (keys managed) ss; rn_subres := None |}).
+  assert (Hinit : forall n, assoc n (ps_cache (initial (keys (cf_targets cfg)))) =
+                            if existsb (String.eqb n) (keys (cf_targets cfg)) then Some None else None).
+  { intros n. cbn [initial ps_cache]. induction (keys (cf_targets cfg)) as [|a l IH]; cbn; [reflexivity|].
+    destruct (String.eqb n a); [reflexivity|apply IH]. }
+  assert (Hex : existsb (String.eqb name) (keys (cf_targets cfg)) = true).
+  { apply existsb_exists. exists name. split; [assumption|apply String.eqb_refl]. }
+  assert (H0 : minv rs0).
+  { apply (Build_minv _ [] s); unfold rs0; cbn [rn_st rn_streams rn_subres]; auto.
+    - unfold managed_streams. rewrite (assoc_filter_keys (fun n => existsb (String.eqb n) (keys managed))).
+      now rewrite Hkm, Hex.
+    - unfold managed_streams. now apply NoDup_fst_filter.
+    - intros n' l Hl. apply filter_In in Hl as [Hl _]. now apply Hok.
+    - split; [reflexivity|]. exists None. split; [now rewrite Hinit, Hex|].
+      constructor; cbn; auto; try discriminate.
+    - constructor; cbn [initial ps_fault ps_cache ps_heap ps_gen]; auto.
+      + rewrite map_map. cbn. now rewrite map_id.
+      + intros n Hn. rewrite map_map in Hn. cbn in Hn. rewrite map_id in Hn. split; [|now apply Hng].
+        apply in_map_iff in Hn as ([n0 t] & E & Hnt). cbn in E. subst n0.
+        now destruct (validate_In cfg n t Hv Hnt).
+      + intros n T. fold (initial (keys (cf_targets cfg))). change (map (fun n0 : string => (n0, None)) (keys (cf_targets cfg)))
+          with (ps_cache (initial (keys (cf_targets cfg)))). rewrite Hinit.
+        destruct (existsb _ _); [|discriminate]. intros E; inversion E; subst T. split; [exact I|].
+        intros k g. cbn. discriminate.
+      + intros g r. cbn. discriminate.
+    - cbn. reflexivity. }
+  assert (Hall : forall acts rs, minv rs -> minv (fold_left (do_action cq) acts rs)).
+  { induction acts as [|a acts IH]; intros rs Hrs; cbn [fold_left]; [assumption|].
+    apply IH. now apply do_action_minv. }
+  specialize (Hall sched rs0 H0). set (rs1 := fold_left (do_action cq) sched rs0) in *.
+  destruct Hall as [c rem H1 H2 Hnd Hok1 H3 Hg H4 H5 H6 H7].
+  unfold quiesce.
+  destruct (ingest_rest_minv (rn_streams rs1) (rn_st rs1) (tf_run name c) (last_ts c) rem Hnd Hok1 H3 Hg
+              (or_intror H4)) as (Hp & Hsn); auto.
+  { now rewrite H2. }
+  assert (Htf : fold_left (tf_item name) rem (tf_run name c) = tf_run name s)
+    by (unfold tf_run; now rewrite H1, fold_left_app).
+  rewrite Htf in Hp.
+  apply (finish_view name Keys Vals Q Qr Keys_pf Keys_gf Vals_dec Q_eq Q_gf name_ne cq cq_query cq_target cq_complete
+           _ (rn_subres rs1) (tf_run name s) Hp).
+  destruct H7 as [[Hr Hs']|[Hr Hs']]; [left|right]; (split; [assumption|]).
+  - apply sub_none_iff. rewrite Hsn. now apply sub_none_iff.
+  - intros E. apply (proj2 (sub_none_iff _)) in E. rewrite Hsn in E. apply sub_none_iff in E. contradiction.
+Qed.
+
+End Multi.
